@@ -12,1323 +12,2847 @@ Definition show_fres (r : fres) : string :=
   end.
 Definition check (rs : list rune) : string := digest (show_fres (format_res rs)).
 Definition full (rs : list rune) : string := show_fres (format_res rs).
-Eval vm_compute in ("<<<M1554>>>" ++ check (runes_of_ascii "// top
-options // c0
-{ // c1
-StringPrefixLenType // c2a
-  // c2b
-= // c3a
-  // c3b
-u64
-    // c4
-; // c5a
-  // c5b
-ArrayPrefixLenType = // c7
-u16
-    // c8
-; // c9
-FixedStringPadChar // c10a
-  // c10b
-=
-    // c11
-' ' // c12
-; }
-    // c14
-packet
-    // c15
-Logon // c16a
-  // c16b
-{ // c17
-i32 // c18
-msgKind // c19
-, repeat // c21a
-  // c21b
-InOrderid65 // c22
-{ // c23
-u8 pad0 , }
-    // c27
-, i8 // c29a
-  // c29b
-tag7 // c30
-, // c31
-@leftPad // c32
-( // c33
-' ' // c34a
-  // c34b
-) // c35
-char[ // c36a
-  // c36b
-12 // c37
-] // c38
-x // c39a
-  // c39b
-, } packet // c42a
-  // c42b
-Leg
-    // c43
-{ // c44
-char[]
-    // c45
-f1
-    // c46
-, repeat // c48a
-  // c48b
-char[
-    // c49
-5 ]
-    // c51
-Px // c52a
-  // c52b
-, // c53a
-  // c53b
-InQty34 // c54
-{ // c55a
-  // c55b
-repeat // c56
-char[ // c57
-6 // c58
-] Qty // c60a
-  // c60b
-, char[ // c62a
-  // c62b
-7
-    // c63
-] seqNo // c65
+Eval vm_compute in ("<<<M3505>>>" ++ check (runes_of_ascii "  packet 
+Header
+
+    { f32
+lengthOf
+    `doc` ,
+string  Z9_
+
+@lengthOf(
+
+    uint8x ) `doc`  ,
+u32
+calculatedFrom`" ++ [233]%N ++ runes_of_ascii "` 
+, 
+u32 i64_  ,	match
+    rootA
+
+as
+falsey
+    // `tick` ""quote"" 'q'
+// 50% %s
+
+	{4294967296
+
+:  Packet, [7 
 ,
-    // c66
-string // c67
-count , // c69
-} // c70
-, // c71a
-  // c71b
-Logon // c72
-,
-    // c73
-}
-    // c74
-packet Party
-    // c76
-{ // c77a
-  // c77b
-@leftPad
-    // c78
-( // c79a
-  // c79b
-'0' // c80a
-  // c80b
-) // c81
-char[ 10 // c83a
-  // c83b
-] // c84
-OrderId // c85a
-  // c85b
-, // c86
-string // c87a
-  // c87b
-Tail
-    // c88
-,
-    // c89
-}
-    // c90
-packet
-    // c91
-Fill // c92
-{ zchar[ // c94a
-  // c94b
-5 // c95
-]
-    // c96
-venue // c97
-, zchar[ // c99a
-  // c99b
-3
-    // c100
-]
-    // c101
-clOrdID // c102a
-  // c102b
-, // c103
-InRef95 // c104
-{ InLastpx25
-    // c106
-{ // c107
-u8
-    // c108
-pad0 , // c110
-} , // c112a
-  // c112b
-float64
-    // c113
-OrderId // c114
-, // c115
-i32
-    // c116
-f1 // c117a
-  // c117b
-,
-    // c118
-float32 x , // c121a
-  // c121b
-char[]
-    // c122
-seqNo
-    // c123
-, // c124
-} , // c126a
-  // c126b
-repeat string // c128a
-  // c128b
-seqNo // c129a
-  // c129b
-,
-    // c130
-} // c131
-root // c132a
-  // c132b
-packet Heartbeat // c134a
-  // c134b
-{ // c135a
-  // c135b
-repeat // c136a
-  // c136b
-Leg // c137
-, u32
-    // c139
-seqNo // c140a
-  // c140b
-, u16 // c142
-tag7
-    // c143
-, // c144
-u32 Flags @lengthOf( // c147
-Body // c148a
-  // c148b
-)
-    // c149
-,
-    // c150
-match tag7 as // c153a
-  // c153b
-Body
-    // c154
-{ // c155a
-  // c155b
-[ // c156
-195
-    // c157
-,
-    // c158
-75 // c159
-] // c160a
-  // c160b
-: Party , // c163
-171 // c164
-: Fill // c166a
-  // c166b
-, 78 : // c169a
-  // c169b
-Logon // c170
-, // c171a
-  // c171b
-142
-    // c172
-: // c173
-Leg , // c175
-} , u32 // c178
-Note @calculatedFrom( ""CRC32"" // c181a
-  // c181b
-) , // c183a
-  // c183b
-} // c184
-")).
-Eval vm_compute in ("<<<M96>>>" ++ check (runes_of_ascii "root packet Logon {
-    zchar[ 65535
-]
-uint8x ,@leftPad ()repeat f32
-    Packet , @leftPad ( ' '
-//x
-//	t
-) match i8i8 as  body// a // b
-{ 65535 : MetaDataX ,
-    007
-    : Packet
-}
-,  @calculatedFrom(""packet"")uint8x ,Foo@lengthOf( asx
-    //	t
-    )
-, i64 int , //
-@leftPad ( ' ' ) repeat rootA {
-int32 zchar
-,match stringy  as MetaDataX
-    { [ """ ++ [28040; 24687]%N ++ runes_of_ascii """  , 10 ,42 , ""a\""b"" ,	42 ,7]: msg_type ,[
-    42 ]	:stringy , ""a\\"" :
-Header  255 : calculatedFrom
-    //	t
-    ,
-// a // b
-/// triple
-[ 007// " ++ [27880; 37322]%N ++ runes_of_ascii "
-]
-    :
-/// triple
-//x
-MetaDataX , ""a\""b""
-    //	t
-    ://
-stringy // " ++ [128512]%N ++ runes_of_ascii " emoji
-, } , char[ 007  ] int @lengthOf(
-    o
-    )`" ++ [233]%N ++ runes_of_ascii "` // `tick` ""quote"" 'q'
-,
-// trailing space 
-//x
-}	, @leftPad (
-//
-// @lengthOf(
-)@lengthOf(
-    metadata )match
-asx
-as leftPad { ""x y""
-:
-matchKey // packet A { u8 x, }
-} // " ++ [27880; 37322]%N ++ runes_of_ascii "
-,
-    repeat  leftPad `say ""hi""` ,char[//	t
-65535// c
-] // a // b
-Packet , } root packet // a // b
-x_y_z { match uint8x as As
-    { [0123456789 ] : T
-    65535
-    :	x_y_z ""\n""
-    //
-    : u,
-    4294967296 :  Packet	[ 65535  ]: T ,
-    255 : uint8x },int32 Packet  `tab	here` , @calculatedFrom( """"
-) @calculatedFrom(
-    ""a\\"" ) u64 repeatCount
-    @calculatedFrom( """" ) , Header
+""a\""b"" , 007
+	,
+	4294967296 ]
+    :// 50% %s
+	pack
+    65535 :
 zchar
-`doc` ,
-match
-_x as	metadata // " ++ [128512]%N ++ runes_of_ascii " emoji
-{ [ 255 ,""1""	] : Logon [
-""" ++ [233]%N ++ runes_of_ascii "t" ++ [233]%N ++ runes_of_ascii """ ,00, 65535
-    ,	7 , 42	, 00	]
+}
+    ,
+	repeat MetaDataX{	match
+    crc as
+
+roots
+    { 3: matchKey
+    ,[
+""a\\""
+,""`tick`""	]
 :
-packetx , 4294967296 : stringy
-    //	t
-    ,}, char[00
-    ] tag `doc` ,@lengthOf(
-int )
-string u
-    ,  @tag( 007 ) int16 stringy , float64
-    crc, @calculatedFrom( ""x y""  ) repeat u16 f32a ,}options  {	u128= ""CRC32"" options1 = // packet A { u8 x, }
-false u8x= ""`tick`"";}")).
-Eval vm_compute in ("<<<M1871>>>" ++ check (runes_of_ascii "
 
-  options
+    matchKey 42 
+:
+    roots  , 	 //x
+    65535  : MetaDataX 
+,
 
-    {
+    ""1"": repeatCount ,
+4294967296
 
-Packet =
-""packet""
+    :	falsey
 
-len
-	= 
-""packet""; charz= true  }  packet	calculatedFrom	// c
+    ,
+    }
+	,
+} ,
+    match
+
+Foo as
+
+float
+
+    {  10
+
+:lengthOf  255
+
+    : x_y_z
+, 7
+:
+
+o 00
+	: i64_, }
+
+, 
+repeat A
+	stringy  // a // b
+`{ , }`	// c
+      , Header{
+
+    u8x trueish
+	, char  roots
+@lengthOf(  leftPad	)
+,	match
+T as  // " ++ [128512]%N ++ runes_of_ascii " emoji
+msg_type
 
 {
 
-//	t
-// a // b
-	repeat // " ++ [27880; 37322]%N ++ runes_of_ascii "
-Packet
+0123456789 : As
+, 
+}	, 
+falsey  @lengthOf(trueish
 
+)// trailing space 
+      , }  ,  } MetaData
+crc 	 // a // b
+
+  { uint16 A ,
+	string BodyLength,i16
+x_y_z 
 ,
-	uint8x @calculatedFrom( 
-	    // @lengthOf(
-	// `tick` ""quote"" 'q'
-		""\n"")
-	,@calculatedFrom( 
-""// no comment""
-)  @rightPad  /// triple
-(
+} packet
 
-' '
-)
-match x
-	    //x
-    	//	t
+u {
+@rightPad  // 50% %s
+  (	'\x00'	) zchar[
+    3
+]Logon  @calculatedFrom( ""x y""
+	), @lengthOf(
 
-  as
-    Packet {	00 : 
-Pad
-	[0
-
-    ]:  // @lengthOf(
-	  As 
-,  }
-
-    ,  @lengthOf(	chars
+    rootA
 ) 
+        /// triple
+/// triple
+  repeat  f32
+falsey
+
+, 
+@lengthOf(chars
+
+    )  @calculatedFrom(	//	t
+
+  ""// no comment"")  repeat metadata,	f32a @lengthOf( 
 a1
-    `it's`,match 
+
+    )
+,  @rightPad
+
+    (
+
+'\x00' )f64
+i64_
+
+    @calculatedFrom( ""a	b"" ) , @calculatedFrom(
+""\n""
+
+    )
+
+uint32 BodyLength  @calculatedFrom( 
+        // trailing space 
+
+// 50% %s
+    """ ++ [233]%N ++ runes_of_ascii "t" ++ [233]%N ++ runes_of_ascii """
+)	`" ++ [28040; 24687; 31867; 22411]%N ++ runes_of_ascii "`,	@lengthOf( Logon 
+      // packet A { u8 x, }
+	)
+// 50% %s
+    u16
+	T	@calculatedFrom( ""a\\"" 
+)  `crlf
+line` , 
+string	Packet	/// triple
+    ,char[]
+
+    len
+	``,
+
+}
+	root
+packet  T 
+{
+@calculatedFrom( 
+//	t
+  //	t
+
+  ""`tick`""  )char[
+
+3  
+  // a // b
+  // " ++ [128512]%N ++ runes_of_ascii " emoji
+  ] 
+msg_type
+, lengthOf 
+`it's`
+	,
+
+@lengthOf(msg_type  )
+	char
+
+leftPad`u8 x,`
+
+, 	 // 50% %s
+  repeat
+	u64
+body
+
+    , } 
+packet
+i8i8{
+@lengthOf(
+string_  ) repeat
+	char[]
+
+    x ,@calculatedFrom( ""CRC32"")
+	u16
+A
+	    // @lengthOf(
+    @lengthOf(  string_ )	`// not a comment` ,  i32 zchar 	 // " ++ [128512]%N ++ runes_of_ascii " emoji
+`a\` ,
+match  roots as i64_ {
+    [ 4294967296, ""abc"",
+
+""x y"" 
+,""a	b""
+	,
+
+""a	b"" 
+] 
+:	Z9_
+[
+
+""// no comment"",
+    ""\n""
+
+    //
+
+,42 ,
+    1 
+, ""\" ++ [233]%N ++ runes_of_ascii """ ,
+1 ,
+
+7  ,
+	3 ]	:
+    Header
+	, // c
+  [
+
+    """ ++ [128512]%N ++ runes_of_ascii """	, ""\" ++ [233]%N ++ runes_of_ascii """ ,""\" ++ [233]%N ++ runes_of_ascii """ , 
+00 ,	""" ++ [233]%N ++ runes_of_ascii "t" ++ [233]%N ++ runes_of_ascii """, 1
+    ,	00 ,
+3
+
+    ]:A ,
+}
+, 
+char[  10] a1 ,  } ")).
+Eval vm_compute in ("<<<M832>>>" ++ check (runes_of_ascii "root
+packet MetaDataX {
+    @lengthOf(
+    u128 )@rightPad
+(' ') @calculatedFrom(""" ++ [233]%N ++ runes_of_ascii "t" ++ [233]%N ++ runes_of_ascii """ ) T @lengthOf(
+Foo
+) ,
+calculatedFrom pack,
+@tag( 65535
+// `tick` ""quote"" 'q'
+//	t
+)Header`100% of %d` , @rightPad ( ' '
+    )
+    tag
+T`tab	here`  ,
+    @tag( 65535) crc	@lengthOf(BodyLength)  `// not a comment`, @calculatedFrom( ""CRC32""
+    // packet A { u8 x, }
+    ) repeat i16	i64_
+,
+@calculatedFrom( ""// no comment"" // " ++ [27880; 37322]%N ++ runes_of_ascii "
+)@calculatedFrom(
+    // trailing space 
+    ""CRC32"" ) zchar[007
+] u
+    `say ""hi""`
+    ,
+@tag(3
+) // a // b
+i8 pack @calculatedFrom(""\n""
+    //x
+    )// `tick` ""quote"" 'q'
+`doc` // @lengthOf(
+,
+    } root packet
+    Logon { @lengthOf(	len
+)  x_y_z @lengthOf( MetaDataX
+),
+    // 50% %s
+    }
+// @lengthOf(
+// " ++ [27880; 37322]%N ++ runes_of_ascii "
+packet
+u128 { /// triple
+@tag( 0
+    ) A
+rootA `" ++ [28040; 24687; 31867; 22411]%N ++ runes_of_ascii "`
+, @calculatedFrom( ""it's"" // " ++ [128512]%N ++ runes_of_ascii " emoji
+)  match
+calculatedFrom as crc
+    { 4294967296: charz [ // trailing space 
+4294967296
+// c
+/// triple
+]	:As
+    ,
+4294967296:metadata // " ++ [128512]%N ++ runes_of_ascii " emoji
+[ ""{,}"" , 255 , 65535 ,""x y"" ,  """ ++ [28040; 24687]%N ++ runes_of_ascii """ ] :_x
+, ""1""  : i8i8 //
+,007 // " ++ [128512]%N ++ runes_of_ascii " emoji
+: len , } , @lengthOf( lengthOf )
+match  chars
+// trailing space 
+// @lengthOf(
+as Pad	{
+10
+// c
+//	t
+: string_
+    007:
+chars
+}	, body { float64
+uint8x
+`crlf
+line` , i64
+    a1 `crlf
+line`
+    , // c
+}
+, @calculatedFrom(
+""a\\"" ) repeat // @lengthOf(
+char[ 1 ] len `doc`
+, repeat zchar[ 42
+    ] Foo `// not a comment` , } packet leftPad
+{
+    char[
+42  ] leftPad
+// packet A { u8 x, }
+//x
+@calculatedFrom("""")
+`{ , }`
+, falsey
+    repeatCount,int8 float
+    // a // b
+    @lengthOf( matchKey ) `doc` ,@tag(
+10
+    )
+match
+roots as
+As{
+[
+00 , ""a\""b"", 7 ,
+""\n"", 255 , ""abc"" , """" ,
+    """ ++ [128512]%N ++ runes_of_ascii """ ] :
+body , 007 : Header
+[
+""" ++ [233]%N ++ runes_of_ascii "t" ++ [233]%N ++ runes_of_ascii """
+,42 // " ++ [27880; 37322]%N ++ runes_of_ascii "
+, 255]:	Pad,[ 65535 ,
+    ""{,}"" , 1 ]
+// a // b
+// a // b
+:falsey ,7
+: u8x
+,
+} ,
+@calculatedFrom(
+""abc"" )
+@tag(00
+    ) char[ 7 ]len // " ++ [27880; 37322]%N ++ runes_of_ascii "
+,// trailing space 
+repeat
+    u32 leftPad ,
+} 	 ")).
+Eval vm_compute in ("<<<M1365>>>" ++ check (runes_of_ascii "
+MetaData x_y_z
+{ /// triple
+}packet
+    T
+    {	@rightPad ('\x00')
+pack ,
+} packet
+    x_y_z	{ // a // b
+@tag( 42 ) @calculatedFrom( """ ++ [128512]%N ++ runes_of_ascii """	)uint32 rootA `say ""hi""` , int64 len , @leftPad (	'0' // " ++ [27880; 37322]%N ++ runes_of_ascii "
+) match
+a1  as string_ { 00 : BodyLength
+255:
+    MetaDataX ,
+[ 1
+] :float ,
+    // " ++ [27880; 37322]%N ++ runes_of_ascii "
+    00 :
+stringy
+    , 007
+:
+Header// `tick` ""quote"" 'q'
+,	}
+    ,calculatedFrom , @rightPad () i64_ {
+repeat char[ 3
+    // `tick` ""quote"" 'q'
+    ]
+msg_type `tab	here`
+, } ,repeat _x Pad `say ""hi""`
+    ,
+//	t
+// `tick` ""quote"" 'q'
+a1 rootA, uint32 body
+`" ++ [233]%N ++ runes_of_ascii "`
+,
+//x
+// `tick` ""quote"" 'q'
+} packet x { repeat Pad
+Header	,
+}packet msg_type { repeat o	{ // `tick` ""quote"" 'q'
+uint16 matchKey //x
+@lengthOf(float )  , repeat leftPad // @lengthOf(
+matchKey `100% of %d`, char[ 007 ] string_ @lengthOf(
+// 50% %s
+// packet A { u8 x, }
+o ) , match A as x_y_z{ 10 :	body ,
+    255:
+Packet , ""it's"" :
+metadata [ 10	]	:
+    stringy , 00: zchar
+, } , }
+, @calculatedFrom(  ""`tick`"" ) @lengthOf(
+falsey
+)
+repeat Z9_
+{ matchKey
+    Z9_ `doc` , repeat char[
+00]
+//
+// trailing space 
+Foo ,}, match f32a as o {	[ 007 , ""\" ++ [233]%N ++ runes_of_ascii """// " ++ [27880; 37322]%N ++ runes_of_ascii "
+,
+10
+, 00	,
+/// triple
+//	t
+""" ++ [128512]%N ++ runes_of_ascii """ ] : // @lengthOf(
+repeatCount , [10
+]
+    //x
+    : Packet
+,""a\\""	: string_	[ /// triple
+""a	b"" ]
+: f32a , [255 ,
+255 , ""x y"" ,
+    /// triple
+    ""packet"" ] :
+repeatCount//	t
+,[	""packet"" ,	42
+    // `tick` ""quote"" 'q'
+    ] :  u ,  }
+,  repeatCount{	zchar[	007] zchar @calculatedFrom(""a\""b""
+)  , } , @calculatedFrom( ""a\""b"" )@lengthOf( Foo )
+trueish lengthOf `// not a comment` , float64 // packet A { u8 x, }
+float `" ++ [28040; 24687; 31867; 22411]%N ++ runes_of_ascii "` ,// packet A { u8 x, }
+}
+")).
+Eval vm_compute in ("<<<M1350>>>" ++ check (runes_of_ascii "  MetaData int {} root  packet MetaDataX { uint64 u
+,
+u8 calculatedFrom// packet A { u8 x, }
+@lengthOf(tag
+)
+//x
+// @lengthOf(
+`it's`	,
+As o`it's`, float64 string_
+    , @tag( 42 )
+@lengthOf( T)
+    @calculatedFrom( ""abc"")
+    match uint8x
+as len
+{ // `tick` ""quote"" 'q'
+[""\n"" , ""a\""b""
+    ,
+42,
+    ""// no comment"", """" ,  0123456789 , //x
+""{,}"" ,
+""a\""b""] : matchKey	, [
+    ""\" ++ [233]%N ++ runes_of_ascii """	, ""\" ++ [233]%N ++ runes_of_ascii """ , 3 , """" ]
+:// `tick` ""quote"" 'q'
+_x ,  }, MetaDataX , match
+    MetaDataX	as _x	{ 0 : // @lengthOf(
+uint8x
+, // trailing space 
+} ,@leftPad
+('\x00' ) uint16 roots
+    @calculatedFrom(""abc""
+    // " ++ [27880; 37322]%N ++ runes_of_ascii "
+    )
+    ,// packet A { u8 x, }
+@rightPad
+(  ' ' ) int32 leftPad
+    @calculatedFrom( ""packet"" ) `a\`, } packet	len{ len
+,@lengthOf(
+    float
+)@calculatedFrom(	""" ++ [28040; 24687]%N ++ runes_of_ascii """  )  @tag(  4294967296
+)
+uint8//	t
+metadata // " ++ [128512]%N ++ runes_of_ascii " emoji
+@calculatedFrom( ""`tick`""
+)// packet A { u8 x, }
+`" ++ [28040; 24687; 31867; 22411]%N ++ runes_of_ascii "` ,
+@lengthOf( //x
+BodyLength // 50% %s
+) zchar[ 007
+]Z9_ , _x{char[]i8i8 `doc` , } , repeatCount  @calculatedFrom(""`tick`"" ) ,match
+    i8i8 as tag
+{ 7 : Pad,} , u8 lengthOf //
+`{ , }` ,
+@tag(
+    // `tick` ""quote"" 'q'
+    00 ) // " ++ [128512]%N ++ runes_of_ascii " emoji
+_x _x ,  } packet lengthOf
+{ repeat calculatedFrom , @tag( 42 )
+// @lengthOf(
+// " ++ [27880; 37322]%N ++ runes_of_ascii "
+match asx as A { ""\" ++ [233]%N ++ runes_of_ascii """ : int	""abc"" :
+falsey , """ ++ [128512]%N ++ runes_of_ascii """// `tick` ""quote"" 'q'
+: falsey , [""x y"", 42 ] : charz
+    // @lengthOf(
+    } , } // `tick` ""quote"" 'q'")).
+Eval vm_compute in ("<<<M4432>>>" ++ check (runes_of_ascii "root packet charz {
+    @calculatedFrom(""" ++ [233]%N ++ runes_of_ascii "t" ++ [233]%N ++ runes_of_ascii """)
+    Foo x `u8 x,`,
+    rootA @lengthOf(leftPad),
+    zchar[0123456789] MetaDataX `" ++ [28040; 24687; 31867; 22411]%N ++ runes_of_ascii "`,
+    @tag(7)
+    packetx @calculatedFrom(""CRC32"") `it's`,
+    @lengthOf(falsey)
+    repeat zchar[4294967296] string_,
+    @lengthOf(options1)
+    int {
+        int64 u @calculatedFrom(""1"") `line1
+        line2`,
+        repeat zchar[00] falsey,
+        char[] stringy @calculatedFrom(""it's"") `crlf
+        line`,// a // b
+        i16 A,
+    },
+    @calculatedFrom(""`tick`"")
+    f64 BodyLength @lengthOf(len) `crlf
+    line`,
+}
+
+MetaData msg_type {
+    uint64 roots `100% of %d`,
+}
+
+options {
+    packetx = true
+}
+
+MetaData uint8x {
+}
+
+root packet crc {
+    // trailing space 
+    char[4294967296] i64_,
+    @leftPad('0')
+    @lengthOf(msg_type)
+    repeat Foo `line1
+    line2`,
+    asx i64_ `two words`,
+    @tag(7)
+    Packet,
+    repeat i64 u8x `say ""hi""`,
+    zchar[7] x_y_z,// `tick` ""quote"" 'q'
+    match Foo as Pad {
+        // c
+        [""abc"", """"] : options1,
+        ""a	b"" : crc,
+        42 : rootA,
+        // " ++ [128512]%N ++ runes_of_ascii " emoji
+    },
+    @lengthOf(Header)
+    body int,
+    @tag(1)
+    @calculatedFrom(""" ++ [233]%N ++ runes_of_ascii "t" ++ [233]%N ++ runes_of_ascii """)
+    char[255] charz @lengthOf(A),/// triple
+    uint64 Packet @calculatedFrom(""1"") `100% of %d`,
+}")).
+Eval vm_compute in ("<<<M3588>>>" ++ check (runes_of_ascii "packet
+    Packet{  @lengthOf(crc
+)  // 50% %s
+
+repeat
+
+    zchar[
+0123456789 ]
+
+    charz
+
+    ,
+
+    @lengthOf(
+
+    len
+)leftPad x_y_z
+
+    ,
+	x{
+string  a1 @lengthOf( 
 Logon
 
-    as	int {  ""packet"" :
-int
-[ """ ++ [28040; 24687]%N ++ runes_of_ascii """ ,
-0123456789 // trailing space 
-    ,	""x y""
-
-,
-	65535 
-        //	t
-    ]
-
-:lengthOf, 10 : asx  , [ ""// no comment"" ] 
-: zchar	, ""// no comment""
-:	a1
-//
-		// `tick` ""quote"" 'q'
-  ,	0
-
-    : len,  }// " ++ [27880; 37322]%N ++ runes_of_ascii "
-
-  , 
-match
-
-    u8x
-as MetaDataX
-{
-	[	255
-]:string_// packet A { u8 x, }
-
-,
-
-    [
-	""// no comment"", ""CRC32"" ]
-    : 
-metadata , 	 // packet A { u8 x, }
-    ""a\""b""  : 
-// " ++ [27880; 37322]%N ++ runes_of_ascii "
-  leftPad	},
-
-    Header`tab	here` ,} packet
-
-u128  {
-    char[
-
-10	//x
-	]
-    trueish 
-`tab	here`
-
-,
-repeat  asx
-    {
-
-match 
-len	as
-    chars{
-
-    1  : MetaDataX, 42  : roots
-    ,10
-
-    : BodyLength
-, 
-""// no comment"" :
-    o	,""a\\""
-    :	i64_,
-	}
-
-    ,
-
+)
+	,
 }
-,  }
-")).
-Eval vm_compute in ("<<<M367>>>" ++ check (runes_of_ascii "
-options {  Packet = ""packet""len
-=
-""packet"" ;
-    charz =true} packet calculatedFrom// c
-{
-//	t
-// a // b
-repeat// " ++ [27880; 37322]%N ++ runes_of_ascii "
-Packet, uint8x @calculatedFrom(
-// @lengthOf(
-// `tick` ""quote"" 'q'
-""\n""
-    ) , @calculatedFrom( ""// no comment""	)
-@rightPad /// triple
-(	' ') match
-    x
-//x
-//	t
-as Packet
-{
-00 : Pad [
-0	] :// @lengthOf(
-As , }
-,
-@lengthOf( chars )
-a1 `it's` , match Logon as int { ""packet"": int [ """ ++ [28040; 24687]%N ++ runes_of_ascii """ ,0123456789 // trailing space 
-, ""x y"" , 65535
-    //	t
-    ] : lengthOf, 10:asx, [  ""// no comment"" ] :  zchar, ""// no comment"": a1
-//
-// `tick` ""quote"" 'q'
-, 0 :len
-    ,} // " ++ [27880; 37322]%N ++ runes_of_ascii "
-,
-match u8x as
-    MetaDataX
-{
-    [
-255 ]
-    :
-string_ // packet A { u8 x, }
-, [ ""// no comment"" ,	""CRC32""]: metadata,// packet A { u8 x, }
-""a\""b""	:
-    // " ++ [27880; 37322]%N ++ runes_of_ascii "
-    leftPad }, Header `tab	here`, } packet u128 {
-    char[10//x
-] trueish `tab	here`, repeat asx {
-match
-len as chars {1 : MetaDataX ,
-42 :
-    roots ,
-    10:
-BodyLength,
-""// no comment"" :
-    o , ""a\\"" :	i64_ ,
-    }
-    ,	} ,
-    }
-")).
-Eval vm_compute in ("<<<M19>>>" ++ check (runes_of_ascii "packet
-int // " ++ [27880; 37322]%N ++ runes_of_ascii "
-{ repeat // @lengthOf(
-MetaDataX // a // b
-{ //	t
-pack
-    { repeat Pad	{ i8 MetaDataX
-, repeat pack	trueish ,
-u
-    // trailing space 
-    charz	`" ++ [233]%N ++ runes_of_ascii "` ,string
-int
-, }	, f64 Z9_
-    ,
-} ,
-} // c
-,	} packet trueish {
-@lengthOf(
-    u)uint8 metadata
-    `" ++ [28040; 24687; 31867; 22411]%N ++ runes_of_ascii "` , match	uint8x
-as roots
-{ """ ++ [233]%N ++ runes_of_ascii "t" ++ [233]%N ++ runes_of_ascii """:
-    Pad 0123456789
-: msg_type// " ++ [27880; 37322]%N ++ runes_of_ascii "
-[ ""1"" ,	0 ,10] //	t
-:
-pack,
-[ ""it's"" ,  ""\" ++ [233]%N ++ runes_of_ascii """ ] :u8x
-, [// " ++ [128512]%N ++ runes_of_ascii " emoji
-0123456789 ] :
-MetaDataX
-    // packet A { u8 x, }
-    , },zchar[	00 ] pack @lengthOf( string_ ),// packet A { u8 x, }
-@tag( 4294967296 )
-x_y_z string_ ,
-    } options {A
-    =true float  =	""" ++ [28040; 24687]%N ++ runes_of_ascii """ ; }
-MetaData Header { zchar[//
-7 // `tick` ""quote"" 'q'
-]u128
-, char[]
-/// triple
-// trailing space 
-u , string_ metadata	,
-uint32 f32a `u8 x,` , } options{// trailing space 
-roots
-    =
-    true;
-int =false ; string_=
-"""" }")).
-Eval vm_compute in ("<<<M49>>>" ++ check (runes_of_ascii "packet
-i8i8 {
-    char[]
-    string_
-// " ++ [27880; 37322]%N ++ runes_of_ascii "
-//
-`tab	here` //
-, @lengthOf(
-    T )
+    , @tag(
+0  
+  //
+    ) @lengthOf(
+u8x  ) @calculatedFrom(
+""it's""
+
+    )
+
+string
+zchar ``
+
+    ,} MetaData
+	repeatCount
+	{
+} packet trueish{ u64 o // " ++ [27880; 37322]%N ++ runes_of_ascii "
     @lengthOf(
-uint8x)@rightPad ( '\x00' ) zchar[ 4294967296 // packet A { u8 x, }
-]	f32a @calculatedFrom(
-// " ++ [27880; 37322]%N ++ runes_of_ascii "
-//x
-""CRC32"")
-    `it's`	, } // @lengthOf(
-root // packet A { u8 x, }
-packet	A
-    { @rightPad
-//	t
-// packet A { u8 x, }
-( )
-    @calculatedFrom(""" ++ [233]%N ++ runes_of_ascii "t" ++ [233]%N ++ runes_of_ascii """ )	string T`crlf
-line`
+
+    T
+)
     ,
-    u64 falsey `two words`
-//x
-// trailing space 
-,zchar[ 65535	] lengthOf
-`doc` , match // `tick` ""quote"" 'q'
-crc
-as int { [ ""packet"",
-    ""it's""
+	repeat
+f64
+    BodyLength,	int32
+x
+@calculatedFrom(""1""
+	),  @tag(
+10 )
+	Z9_`{ , }`	,
+    f32a 	 // trailing space 
+{ 
+
+    //x
+	repeat
+zchar[
+    0123456789	] A,  repeat 	 // trailing space 
+
+i64	stringy
+,	//
+
+	leftPad
+    //x
+  `tab	here`
+
+    ,	} 
+,
+    }	//
+		packet
+
+    u128
+{
+
+    match _x 
+as // " ++ [128512]%N ++ runes_of_ascii " emoji
+MetaDataX
+{	[
+    ""x y"",42 
+]  : A,
+} , // " ++ [128512]%N ++ runes_of_ascii " emoji
+@lengthOf( charz
+    )charz{match
+
+x_y_z as
+f32a
+{
+
+[
+
+    007 , // trailing space 
+    10 
+
+    // @lengthOf(
+	// `tick` ""quote"" 'q'
+    ,
+42,""" ++ [233]%N ++ runes_of_ascii "t" ++ [233]%N ++ runes_of_ascii """	,	0123456789/// triple
+  ]:
+
+    x_y_z 
+,
+	7
+:u128 
+, 
+""// no comment"" 
+:  repeatCount
+, // " ++ [128512]%N ++ runes_of_ascii " emoji
+
+""a\\""
+	:	int
+
+    ,""x y"":
+
+    u128 }
+, } ,i16
+
+    chars @lengthOf( zchar
+
+    )`it's`,
+}
+packet
+asx { }")).
+Eval vm_compute in ("<<<M4138>>>" ++ check (runes_of_ascii "// `tick` ""quote"" 'q'
+root packet Z9_ {
+    char[1] x_y_z @lengthOf(body),
+    i32 o,
+    repeat falsey u128 `it's`,// `tick` ""quote"" 'q'
+    uint32 As ``,
+    repeat i8 i64_ `100% of %d`,
+    @calculatedFrom(""a\""b"")
+    repeat float,
+    @rightPad('0')
+    char[] u `it's`,
+    //
+    //x
+    u8x @calculatedFrom(""x y"") `doc`,//	t
+    int8 stringy `tab	here`,
+}
+
+packet calculatedFrom {
+    f64 u128 @lengthOf(len),
+}
+
+packet As {
+    float64 calculatedFrom `two words`,
+    match repeatCount as chars {
+        """" : charz,
+    },
+    repeat trueish {
+        u8 Z9_,
+        repeat body,
+    },
+    int float,
+    @leftPad()
+    tag {
+        u16 string_ @calculatedFrom(""`tick`"") `
+                `,
+        zchar[007] x @calculatedFrom(""1"") `// not a comment`,
+    },
+    A roots,
+    @tag(4294967296)
+    match msg_type as A {
+        007 : msg_type,
+        /// triple
+        [42, ""{,}""] : x_y_z,
+        255 : f32a,
+        [0123456789, ""1""] : T,
+    },
+    @tag(0)
+    o packetx `" ++ [28040; 24687; 31867; 22411]%N ++ runes_of_ascii "`,
+    pack int `two words`,// trailing space 
+    @rightPad(' ')
+    i64_ @lengthOf(Foo),
+}")).
+Eval vm_compute in ("<<<M1017>>>" ++ check (runes_of_ascii "packet asx { //
+}packet Z9_ { @rightPad
+(
+    '\x00' ) leftPad  @calculatedFrom("""")
+    ,
+@calculatedFrom( ""packet"" )
+    roots calculatedFrom `two words` , @calculatedFrom( ""x y"") @calculatedFrom( // `tick` ""quote"" 'q'
+""a\""b"" ) repeat x
+    // " ++ [128512]%N ++ runes_of_ascii " emoji
+    charz
+    , repeat	f32a
+{ char[] // `tick` ""quote"" 'q'
+falsey @lengthOf(pack ),
+zchar[
+10 ] options1 @lengthOf(// 50% %s
+float
+    ),char[ 00
     ]
-: body ,007
+Packet @lengthOf(chars
+    ) , } ,@calculatedFrom( ""a	b"" ) T
+BodyLength `doc`	,@tag( 10
+    )match
+x as msg_type
+    {
+    007 :
+    /// triple
+    Z9_ ,
+[255
+// " ++ [128512]%N ++ runes_of_ascii " emoji
+// `tick` ""quote"" 'q'
+, ""a	b"" // `tick` ""quote"" 'q'
+] :
+    lengthOf , } ,
+}packet tag
+    //x
+    {
+    Logon @calculatedFrom(""\" ++ [233]%N ++ runes_of_ascii """
+),
+repeat f32a
+{
+    int8 Logon @lengthOf(repeatCount ) `100% of %d` ,}
+, @calculatedFrom( ""{,}""
+    )
+@leftPad ( '0'
+    ) @tag( 255//
+) int32 MetaDataX`it's`,@rightPad
+    ( '0' )@calculatedFrom( """ ++ [128512]%N ++ runes_of_ascii """
+) Pad
+x , zchar[  007	]
+    MetaDataX , } packet BodyLength {
+}packet calculatedFrom
+{// packet A { u8 x, }
+}
+")).
+Eval vm_compute in ("<<<M1096>>>" ++ check (runes_of_ascii "packet
+// c
+//	t
+Foo { repeat
+    zchar x_y_z
+,match // a // b
+f32a as body { 7 :
+    len ,} ,
+    @tag( //x
+4294967296 )//	t
+lengthOf	@lengthOf( MetaDataX )
+, @tag( 007 ) repeat f64 chars , repeat
+//x
+// a // b
+packetx { f64
+    calculatedFrom , char[ 0123456789
+    ] Header
+@lengthOf( Foo) , repeat rootA
+,} , @calculatedFrom(
+// c
+// trailing space 
+""CRC32"" )
+falsey  _x `it's` , match roots as packetx{
+    42 : rootA ,0123456789 : Z9_ // @lengthOf(
+3 : a1
+42	://	t
+int // c
+, 007 // @lengthOf(
 :
     // a // b
-    leftPad
-,	""{,}"" :
-    Z9_, [ 0123456789
-    , 00
-    , ""a\\"" // " ++ [128512]%N ++ runes_of_ascii " emoji
-, """ ++ [128512]%N ++ runes_of_ascii """  , ""\" ++ [233]%N ++ runes_of_ascii """
-    , ""`tick`"", ""it's"",
-    """ ++ [233]%N ++ runes_of_ascii "t" ++ [233]%N ++ runes_of_ascii """]
-: x_y_z,} // c
-,}
+    options1 , } ,  } root packet
+    u8x {zchar[
+    00
+    ] i8i8
+    `{ , }` , u128``
+    ,  } packet
+    lengthOf	{@leftPad ( '0' )
+// " ++ [27880; 37322]%N ++ runes_of_ascii "
+// a // b
+@rightPad
+    (  '0' )
+@calculatedFrom("""" ) int16 pack
+// `tick` ""quote"" 'q'
+// packet A { u8 x, }
+@lengthOf(
+// " ++ [128512]%N ++ runes_of_ascii " emoji
+// " ++ [27880; 37322]%N ++ runes_of_ascii "
+repeatCount ) `// not a comment`	,@lengthOf(
+// @lengthOf(
+// c
+crc  )	T ,
+// c
+// 50% %s
+} options{ }
+// 50% %s
+// " ++ [128512]%N ++ runes_of_ascii " emoji
+root packet
+    roots {
+u8x calculatedFrom , }
 ")).
-Eval vm_compute in ("<<<M1810>>>" ++ check (runes_of_ascii "// top
-options {
-    // c1
-    LittleEndian = true;
-    StringPrefixLenType = u16;// c9a
-    // c9b
-    ArrayPrefixLenType = u64;// c13
-}// c14
+Eval vm_compute in ("<<<M3615>>>" ++ check (runes_of_ascii "
+MetaData
 
-packet Fill {
-    // c17a
-    // c17b
-}
-
-packet Logon {
-    repeat char[3] Tail,// c27
-    zchar[6] venue,// c32
-    repeat string Side2,
-    // c36
-}
-
-root packet Cancel {
-    char[] Flags,
-    char[] OrderId,
-    zchar[6] msgKind,
-    // c52
-    Fill,
-    char[] Acct,// c57a
-    // c57b
-    u8 f1,
-    // c60
-    match f1 as Body {
-        188 : Fill,
-        5 : Logon,
-        // c73a
-        // c73b
-    },// c75
-    u32 clOrdID @calculatedFrom(""CRC32""),
-    // c81
-}// c82")).
-Eval vm_compute in ("<<<M1522>>>" ++ check (runes_of_ascii "// top
-packet
-    // c0
-Logon // c1
-{ string // c3
-user , // c5
-} root // c7
-packet // c8
-Frame { u8 K // c12
-,
-    // c13
-match
-    // c14
-K // c15a
-  // c15b
-as
-    // c16
-Body // c17
-{ // c18a
-  // c18b
-1 :
-    // c20
-Logon // c21a
-  // c21b
-, // c22
-2 // c23
-: Logout
-    // c25
-, // c26
-} // c27a
-  // c27b
-, // c28a
-  // c28b
-Tail // c29a
-  // c29b
-, // c30
-} packet
-    // c32
-Logout // c33
-{ // c34a
-  // c34b
-u16
-    // c35
-reason // c36
-, // c37a
-  // c37b
-} packet Tail // c40
+    lengthOf
 {
-    // c41
-u32 // c42
-crc
-    // c43
-, } ")).
-Eval vm_compute in ("<<<M1747>>>" ++ check (runes_of_ascii "// top
-    packet 
-    // c0
-float// c1a
-  // c1b
-  { // c2a
-  // c2b
-  repeat	// c3
-		i8i8 MetaDataX  // c5
 
-	`it's` // c6
-      , rootA// c8
-  ,	// c9a
-		// c9b
-  repeat 	 // c10
-    int8 // c11
+    uint32
+    charz
+`100% of %d` 	 //	t
+  , } packet
 
-int  // c12
-	  ,
-match  // c14
-repeatCount	// c15
-    	as  // c16a
-    	// c16b
-	x_y_z{ 
-      // c18
-  	""{,}"" // c19a
-      // c19b
-    : 	 // c20
-    Logon  // c21
-    , 	 // c22a
-    // c22b
-}  // c23
+zchar
+{@calculatedFrom(
 
-  ,// c24a
+    ""x y"" )	match
 
-  // c24b
-    }  // c25a
-	// c25b
-")).
-Eval vm_compute in ("<<<M1670>>>" ++ check (runes_of_ascii "MetaData T {
-    char[] metadata,
-    // `tick` ""quote"" 'q'
-    i8 Header,
-    u128 chars `a\`,
-    char[42] calculatedFrom,
-}// packet A { u8 x, }
+    As
+    // trailing space 
+	  // `tick` ""quote"" 'q'
+as As
 
-packet stringy {
-    @rightPad()
+{  [
+
+7
+    ,
+
+    """ ++ [128512]%N ++ runes_of_ascii """
+	] : lengthOf ,
+
+[
+	"""" ,  007
+
+    ,
+    3 ,  42,
+""\n""// packet A { u8 x, }
+    ]
+: Packet // " ++ [27880; 37322]%N ++ runes_of_ascii "
+	  ,	//x
+
+}  , @leftPad
+(
+
+)@tag( 
+42
+    )  zchar  // c
+	  , 
+@lengthOf(
+    x)  uint16	crc // " ++ [27880; 37322]%N ++ runes_of_ascii "
+  @lengthOf( lengthOf // " ++ [128512]%N ++ runes_of_ascii " emoji
+    	) 
+`u8 x,`// c
+	, Foo  { 
+repeat	packetx
+,
+    zchar[
+
+3
+
+    ]
+	chars
+
+    @lengthOf( 
+    /// triple
     //	t
-    string trueish `two words`,
+  tag  ) ,string  chars
+	// `tick` ""quote"" 'q'
+	@calculatedFrom(""abc"" )
+`a\` 
+, }
+,	@rightPad(  '0'
+	)  Logon  {
+// " ++ [128512]%N ++ runes_of_ascii " emoji
+	// " ++ [27880; 37322]%N ++ runes_of_ascii "
+int16 
+leftPad 
+	    //	t
+
+// `tick` ""quote"" 'q'
+	@calculatedFrom(""""
+    )
+
+,
+    Foo
+@calculatedFrom(
+    ""\" ++ [233]%N ++ runes_of_ascii """ )
+, 
+// 50% %s
+    	// @lengthOf(
+
+	int16 
+len `u8 x,`,
+
 }
+	,
 
-MetaData metadata {
-    zchar[007] x_y_z,
-    zchar[10] u `// not a comment`,
-    string u8x,
-    char[] repeatCount,
-    zchar Pad,
-    u32 f32a `doc`,
-}// `tick` ""quote"" 'q'")).
-Eval vm_compute in ("<<<M1698>>>" ++ check (runes_of_ascii "// top
-packet A {
-    // c2
-    u8 a,
-}// c6a
-
-// c6b
-packet B {
-    // c9a
-    // c9b
-    u16 b,// c12a
-    // c12b
+}MetaData
+	matchKey  {}")).
+Eval vm_compute in ("<<<M568>>>" ++ check (runes_of_ascii "MetaData
+    calculatedFrom {
+} //x
+options { stringy =
+    ' ' ;	} packet
+    tag	{ @tag(// a // b
+65535 ) repeat x_y_z i8i8 // 50% %s
+,  pack,
+    // " ++ [27880; 37322]%N ++ runes_of_ascii "
+    float @lengthOf(
+trueish )
+,match  metadata
+    as o// 50% %s
+{ 7 :charz , [ ""\n"" ,
+    ""// no comment"" , ""`tick`"", 7,
+    ""x y""
+    ] : body ,//x
+[""a\""b""
+// " ++ [128512]%N ++ runes_of_ascii " emoji
+//	t
+, 0123456789 , 0123456789
+    ,
+""\n"" , 10, ""it's""
+    ,
+""{,}"" , """ ++ [28040; 24687]%N ++ runes_of_ascii """ ] : Header ,
+// a // b
+//x
+4294967296 :
+i64_,""""
+:
+    /// triple
+    stringy, }
+, match rootA as zchar{	0 : a1 0
+: len
+,  [ 1
+    , 0123456789 , ""a\\"" , ""abc"" ,
+""" ++ [128512]%N ++ runes_of_ascii """ ]:matchKey  ,
+    ""CRC32""
+    :
+    Z9_
+    , }
+,@tag(
+    // trailing space 
+    7 )string pack
+    @calculatedFrom( ""x y""	)
+`say ""hi""` , // " ++ [27880; 37322]%N ++ runes_of_ascii "
+@lengthOf(packetx )
+    //	t
+    i8i8
+, char[
+//
+// @lengthOf(
+42
+]
+u8x,
+    } root packet // @lengthOf(
+a1{@rightPad ( '0' ) repeat  i16 body //
+, }")).
+Eval vm_compute in ("<<<M789>>>" ++ check (runes_of_ascii "
+packet pack
+    { match u8x as
+lengthOf
+    {  [10 , """ ++ [128512]%N ++ runes_of_ascii """ , 7 ,255 ] :	i8i8 ,	3 : asx , 007: u} ,} options
+    { lengthOf=zchar[  65535 ] ;	zchar
+    = ""CRC32"" ; } packet
+options1{
+    //
+    repeat zchar[ 0
+    ]	asx`` ,
+// packet A { u8 x, }
+//	t
+char[
+7 ] float@lengthOf(
+BodyLength )
+`it's`
+,
+zchar[ 0123456789 ]
+u128
+    , //x
+@rightPad (
+    ) //
+repeat zchar[255
+    ] Packet	`two words` , BodyLength
+    Pad, @tag( 1 // `tick` ""quote"" 'q'
+) zchar[10
+    ] float @lengthOf( roots) ,@lengthOf( i64_ ) zchar[ 255 ]Logon `` , @lengthOf( Z9_ ) @calculatedFrom( ""a\""b"" ) repeat roots
+    { i16 x // a // b
+@calculatedFrom( ""a\""b"" )
+    , Header @calculatedFrom(""a\""b"" ) `" ++ [233]%N ++ runes_of_ascii "` ,	repeat T
+    `u8 x,`
+, }
+    , @rightPad (
+' '//
+)
+    @leftPad
+    (
+// a // b
+// " ++ [27880; 37322]%N ++ runes_of_ascii "
+'\x00' ) @leftPad ( '\x00' )
+    repeat char[] As , }
+")).
+Eval vm_compute in ("<<<M193>>>" ++ check (runes_of_ascii "packet chars {repeat crc	int , falsey
+string_ `say ""hi""` ,@leftPad
+// `tick` ""quote"" 'q'
+// trailing space 
+(
+) repeat trueish `" ++ [28040; 24687; 31867; 22411]%N ++ runes_of_ascii "`, @calculatedFrom( ""1"" ) // a // b
+repeatCount  ,
+string chars // " ++ [27880; 37322]%N ++ runes_of_ascii "
+@lengthOf(// 50% %s
+calculatedFrom
+// c
+// trailing space 
+)	,
+    }root  packet//x
+uint8x { u64
+rootA  `{ , }` ,  string_ ,
+    char[]
+// c
+//
+matchKey
+    ,	char[ 255
+]
+_x
+// " ++ [27880; 37322]%N ++ runes_of_ascii "
+// 50% %s
+@calculatedFrom(
+    ""1"" ) ,rootA
+@calculatedFrom(
+""a	b"") `line1
+line2`,
+    @lengthOf( // @lengthOf(
+int
+) MetaDataX @lengthOf( msg_type ) ,
+    char[] lengthOf
+@calculatedFrom( ""a\""b"" ) `a\` , int64 A `" ++ [28040; 24687; 31867; 22411]%N ++ runes_of_ascii "` , Logon{ char[ 7 ]calculatedFrom
+,
+leftPad ,
+_x @calculatedFrom(
+""" ++ [128512]%N ++ runes_of_ascii """ )
+    ,
+repeatCount matchKey
+,  } ,
+@lengthOf( Logon )
+    zchar[ 0
+] len `a\` , } // packet A { u8 x, }")).
+Eval vm_compute in ("<<<M653>>>" ++ check (runes_of_ascii "root
+packet T{  } MetaData Header {zchar[ 4294967296
+    ]i64_ `" ++ [28040; 24687; 31867; 22411]%N ++ runes_of_ascii "` , } packet
+    leftPad{ @calculatedFrom(
+    ""a\\"" ) match charz as a1
+{
+    /// triple
+    ""`tick`"": As ,
+[10 , 3 ] : u8x ,[ 255 , // c
+0]:  leftPad 10 :
+repeatCount ,
 }
+// trailing space 
+//	t
+, @tag(	007 ) // packet A { u8 x, }
+uint8
+f32a , @rightPad ( ' ' ) @leftPad
+// 50% %s
+// c
+(  '\x00'
+    ) @lengthOf(//
+stringy ) T @lengthOf(
+charz
+    ) ,
+    metadata matchKey , A// " ++ [27880; 37322]%N ++ runes_of_ascii "
+T
+    , @leftPad // `tick` ""quote"" 'q'
+( '0' ) char[ 1] // trailing space 
+Packet ,
+@tag( 7 )
+    @leftPad
+    (
+' ' ) zchar[ 7]
+    rootA @lengthOf(uint8x ) // trailing space 
+,
+    // `tick` ""quote"" 'q'
+    zchar[  0123456789 ] Header `u8 x,` ,char[ 255	] x@lengthOf( MetaDataX
+) `line1
+line2`,}
 
-// c13
-root packet P {
-    // c17
-    u8 K,// c20a
-    // c20b
-    match K as M {
-        // c25
-        [1, 2] : A,
-        // c33a
-        // c33b
-        3 : B,
-        // c37a
-        // c37b
-        7 : A,
-    },
-}// c44a
-// c44b")).
-Eval vm_compute in ("<<<M182>>>" ++ check (runes_of_ascii "packet
+")).
+Eval vm_compute in ("<<<M157>>>" ++ check (runes_of_ascii "  packet
+asx { match i8i8 as tag /// triple
+{ 4294967296 : i8i8
+,
+10 : Header 10 : zchar }
+    ,
+uint8
+    uint8x
+    , repeat int a1`{ , }` // c
+, @lengthOf( asx) // 50% %s
+repeat
+metadata
+,  } MetaData
+As{Packet A
+,zchar[
+0 ]Pad`two words`,
+u16 T // @lengthOf(
+, } // " ++ [27880; 37322]%N ++ runes_of_ascii "
+root packet Header {
+    float32//x
+Foo@calculatedFrom(
+""abc"" )
+/// triple
+// a // b
+,@leftPad
+    ( )
+repeat string
+    string_	, string leftPad // " ++ [128512]%N ++ runes_of_ascii " emoji
+`say ""hi""` ,
+    @tag(4294967296 )
+    @calculatedFrom( """ ++ [28040; 24687]%N ++ runes_of_ascii """ )
+    char[] // @lengthOf(
+f32a @lengthOf(
+    Pad
+) , int64 Foo ,  zchar[
+4294967296
+]
+    // @lengthOf(
+    tag ,  asx `` ,
+    // 50% %s
+    T @lengthOf( A )
+// a // b
+// `tick` ""quote"" 'q'
+`tab	here`	,}options
+{
+chars =
+f32 }
+")).
+Eval vm_compute in ("<<<M510>>>" ++ check (runes_of_ascii "packet // @lengthOf(
+packetx { @calculatedFrom(	""`tick`"" ) // @lengthOf(
+uint8x@calculatedFrom( ""{,}"" )
+/// triple
+// 50% %s
+`it's` ,
+    }
+options{msg_type=
+    //
+    char[ 10 ] BodyLength = char[ 255 ] Z9_
+= ""a	b"" } options // c
+{ x_y_z
+=	' ' ;}
+packet u { char[] BodyLength  , uint32 Header@lengthOf( packetx )
+    , As Header , @calculatedFrom(
+""// no comment""
+) @lengthOf( uint8x )
+    match // " ++ [128512]%N ++ runes_of_ascii " emoji
+u128 as matchKey
+{ [ 3
+// trailing space 
+//
+,	""\" ++ [233]%N ++ runes_of_ascii """ , ""\" ++ [233]%N ++ runes_of_ascii """ // packet A { u8 x, }
+] : calculatedFrom
+    ,0123456789
+    :o 10
+    : rootA ,	} , //
+zchar[0123456789 ]  BodyLength @lengthOf(
+    repeatCount)
+    , }packet
+leftPad
+    { @tag(007 //	t
+) repeat string packetx  , }")).
+Eval vm_compute in ("<<<M1033>>>" ++ check (runes_of_ascii "root packet MetaDataX {string msg_type @lengthOf(zchar ),
+uint16	tag , char[ 007
+    ]body @lengthOf( roots )
+,
+@lengthOf(
+uint8x ) zchar[ 3	]u
+, char[//
+00 ]
+T ,
+@leftPad (	' '
+)
+    @tag( 65535 ) f64
+// packet A { u8 x, }
+// 50% %s
+matchKey`line1
+line2` ,
+// @lengthOf(
+// packet A { u8 x, }
+char[
+4294967296]  chars @calculatedFrom(""" ++ [28040; 24687]%N ++ runes_of_ascii """
+) `" ++ [28040; 24687; 31867; 22411]%N ++ runes_of_ascii "`
+    // " ++ [128512]%N ++ runes_of_ascii " emoji
+    ,uint16 metadata `crlf
+line` , char[ 65535
+] a1 ,
+options1 @calculatedFrom( ""x y""	)
+    //x
+    `
+` ,
+} options
+    {
+stringy ='\x00' ;stringy = ""CRC32""
+    ;	Packet =	10 zchar = 4294967296 ; len =
+""" ++ [28040; 24687]%N ++ runes_of_ascii """  }
+MetaData x_y_z
+{
+    pack int, }// packet A { u8 x, }
+MetaData
+tag {  u MetaDataX
+, }")).
+Eval vm_compute in ("<<<M3283>>>" ++ check (runes_of_ascii "// top
+packet // c0
+x_y_z // c1
+{ // c2
+match // c3
+leftPad // c4
+as // c5
+string_ // c6
+{ // c7
+0 // c8
+: // c9
+A // c10
+, // c11
+""a	b"" // c12
+: // c13
+x_y_z // c14
+, // c15
+} // c16
+, // c17
+@calculatedFrom( // c18
+""\n"" // c19
+) // c20
+metadata // c21
+{ // c22
+repeat // c23
+lengthOf // c24
+f32a // c25
+`line1
+line2` // c26
+, // c27
+MetaDataX // c28
+{ // c29
+u8x // c30
+matchKey // c31
+, // c32
+} // c33
+, // c34
+uint8 // c35
+a1 // c36
+@lengthOf( // c37
+body // c38
+) // c39
+, // c40
+string // c41
+charz // c42
+`a\` // c43
+, // c44
+} // c45
+, // c46
+} // c47
+packet // c48
+charz // c49
+{ // c50
+} // c51
+MetaData // c52
+A // c53
+{ // c54
+} // c55
+")).
+Eval vm_compute in ("<<<M1183>>>" ++ check (runes_of_ascii "MetaData //
+repeatCount {body
+MetaDataX  `" ++ [28040; 24687; 31867; 22411]%N ++ runes_of_ascii "` ,
+    As calculatedFrom
+,  char[ 00 ] // packet A { u8 x, }
+uint8x
+, float32 tag	`it's` ,calculatedFrom leftPad`say ""hi""` , }
+packet i8i8 { }
+    root packet asx { string matchKey@lengthOf( u
+)
+,
+crc
+@calculatedFrom(
+""abc""
+    // @lengthOf(
+    ) ,
 // @lengthOf(
 // " ++ [128512]%N ++ runes_of_ascii " emoji
-Foo { @calculatedFrom( """" )
-@calculatedFrom(""1""
-) @rightPad () int32 As
-@calculatedFrom( """"// a // b
-)
-    `say ""hi""` // c
-, @calculatedFrom( ""\n""
-)
-// trailing space 
-/// triple
-char[// trailing space 
-65535 ] asx ,
-    repeat	int8 trueish `{ , }` ,
-} root packet lengthOf{  }")).
-Eval vm_compute in ("<<<M29>>>" ++ check (runes_of_ascii "// `tick` ""quote"" 'q'
-MetaData
-    pack {
-string MetaDataX , //
-zchar[ 65535
-] i8i8, pack rootA	`say ""hi""` ,
-    string_ Header `crlf
-line` ,
-int64
-string_ ,
-/// triple
-//	t
-char[]
-packetx
-,	} options
-    { trueish
-= ' '
-; i64_ =
-i16 pack = u16
-;
-len =false }	MetaData i64_{ }")).
-Eval vm_compute in ("<<<M1393>>>" ++ check (runes_of_ascii "packet chars // c1a
-  // c1b
-{ // c2a
-  // c2b
-} // c3a
-  // c3b
+match x
+    //	t
+    as metadata { 10
+:x_y_z
+    ,  [ ""\" ++ [233]%N ++ runes_of_ascii """ , 1 ]	:metadata
+    ,
+65535 : i64_ , ""`tick`"" :matchKey,// packet A { u8 x, }
+} , stringy {int64
+    u
+    @calculatedFrom(	""\" ++ [233]%N ++ runes_of_ascii """) // 50% %s
+, u32
+Pad , u	u `" ++ [233]%N ++ runes_of_ascii "`
+    , Header// a // b
+@calculatedFrom( ""\n"") `" ++ [233]%N ++ runes_of_ascii "` , // " ++ [128512]%N ++ runes_of_ascii " emoji
+} ,}")).
+Eval vm_compute in ("<<<M488>>>" ++ check (runes_of_ascii "MetaData u128
+    {f32a
+body  , A	pack `say ""hi""`
+    , int32
+i8i8 `{ , }` ,zchar[0	] _x `{ , }`
+    ,}packet chars {
+T
+{ char[
+1 ]
+// c
+//x
+u`{ , }`
+    ,	} ,int64 options1  @lengthOf( matchKey
+    )	,
+    @leftPad( '0' ) @tag(  7 ) //	t
+zchar[ 65535 ] falsey @calculatedFrom(
+// packet A { u8 x, }
+// c
+""// no comment"" ) ,
+    @rightPad ( ' ' ) zchar, //x
+char[ 007 ] crc
+`" ++ [28040; 24687; 31867; 22411]%N ++ runes_of_ascii "` ,	@lengthOf(	float )
+match i8i8 as matchKey{	1: stringy ,
+[  ""x y"" ] /// triple
+:// packet A { u8 x, }
+Logon
+    ,
+} ,@tag(42 ) repeat f32a  { A `" ++ [28040; 24687; 31867; 22411]%N ++ runes_of_ascii "`
+,
+//
+//x
+}
+    ,
+    // " ++ [128512]%N ++ runes_of_ascii " emoji
+    }  packet  _x
+    {}
+")).
+Eval vm_compute in ("<<<M3325>>>" ++ check (runes_of_ascii "options {
+    // c1
+} root // c3
 packet
     // c4
-MetaDataX // c5a
-  // c5b
-{ @tag( // c7a
-  // c7b
-42
+u { // c6
+@rightPad // c7
+(
     // c8
-) i16 // c10a
-  // c10b
-string_ // c11a
-  // c11b
-, // c12a
-  // c12b
-repeat // c13
-x `say ""hi""` // c15
-, // c16a
-  // c16b
-} ")).
-Eval vm_compute in ("<<<M661>>>" ++ check (runes_of_ascii "root packet tag { }  packet MetaDataX{char[? 007	]
-// c
-/// triple
-asx  @calculatedFrom( ""a\""b""
-) `say ""hi""`// " ++ [27880; 37322]%N ++ runes_of_ascii "
-,  @tag(4294967296 )
-    char[1//x
-] packetx @calculatedFrom(""a\""b""
-    ) ,
-// " ++ [128512]%N ++ runes_of_ascii " emoji
-// a // b
-@calculatedFrom(""" ++ [233]%N ++ runes_of_ascii "t" ++ [233]%N ++ runes_of_ascii """  ) repeat pack // " ++ [27880; 37322]%N ++ runes_of_ascii "
-,
-    } // c")).
-Eval vm_compute in ("<<<M500>>>" ++ check (runes_of_ascii "root packet tag { packet  } MetaDataX{char[007	]
-// c
-/// triple
-asx  @calculatedFrom( ""a\""b""
-) `say ""hi""`// " ++ [27880; 37322]%N ++ runes_of_ascii "
-,  @tag(4294967296 )
-    char[1//x
-] packetx @calculatedFrom(""a\""b""
-    ) ,
-// " ++ [128512]%N ++ runes_of_ascii " emoji
-// a // b
-@calculatedFrom(""" ++ [233]%N ++ runes_of_ascii "t" ++ [233]%N ++ runes_of_ascii """  ) repeat pack // " ++ [27880; 37322]%N ++ runes_of_ascii "
-,
-    } // c")).
-Eval vm_compute in ("<<<M528>>>" ++ check (runes_of_ascii "root packet tag { }  packet MetaDataX{char[007	
-// c
-/// triple
-asx  @calculatedFrom( ""a\""b""
-) `say ""hi""`// " ++ [27880; 37322]%N ++ runes_of_ascii "
-,  @tag(4294967296 )
-    char[1//x
-] packetx @calculatedFrom(""a\""b""
-    ) ,
-// " ++ [128512]%N ++ runes_of_ascii " emoji
-// a // b
-@calculatedFrom(""" ++ [233]%N ++ runes_of_ascii "t" ++ [233]%N ++ runes_of_ascii """  ) repeat pack // " ++ [27880; 37322]%N ++ runes_of_ascii "
-,
-    } // c")).
-Eval vm_compute in ("<<<M1926>>>" ++ check (runes_of_ascii "// top
-options {
-    // c1a
-    // c1b
-    LittleEndian = true;
-    // c5
-}// c6a
-
-// c6b
-packet B {
-    // c9
-    u8 a,// c12
-    string s,// c15
-}
-
-// c16
-root packet P {
-    // c20
-    u16 L @lengthOf(B),
-    B,
-    // c28
-    u8 t,// c31a
-    // c31b
-}// c32")).
-Eval vm_compute in ("<<<M618>>>" ++ check (runes_of_ascii "root packet tag { }  packet MetaDataX{char[007	]
-// c
-/// triple
-asx  @calculatedFrom( ""a\""b""
-) `say ""hi""`// " ++ [27880; 37322]%N ++ runes_of_ascii "
-,  @tag(4294967296 )
-    char[1//x
-] packetx @calculatedFrom(""a\""b""
-    ) ,
-// " ++ [128512]%N ++ runes_of_ascii " emoji
-// a // b
-""" ++ [233]%N ++ runes_of_ascii "t" ++ [233]%N ++ runes_of_ascii """  ) repeat pack // " ++ [27880; 37322]%N ++ runes_of_ascii "
-,
-    } // c")).
-Eval vm_compute in ("<<<M1906>>>" ++ check (runes_of_ascii "  MetaData  stringy	{
-	i16
-f32a
-
-, string
-
-crc `crlf
-line`,
-
-f32  o  `doc`
-, 
-float64
-calculatedFrom ,  }  packet  o{
-@leftPad  // `tick` ""quote"" 'q'
-	(
-
-)
-    string_
-@lengthOf(	packetx 	 // `tick` ""quote"" 'q'
-  	), }
-")).
-Eval vm_compute in ("<<<M1669>>>" ++ check (runes_of_ascii "  // @lengthOf(
-root packet 
-MetaDataX { repeat 
-i16 packetx
-
-    , @tag(007 )
-x  @lengthOf(
-_x ), @calculatedFrom(
-
-""" ++ [28040; 24687]%N ++ runes_of_ascii """ ) repeat	Pad
-,@lengthOf(falsey) 
-@tag(00
-    ) @tag(  3
-	)string
-i8i8
-
-,	}
-")).
-Eval vm_compute in ("<<<M2004>>>" ++ check (runes_of_ascii "packet A {
-    Inner {
-        match k as n {
-            [
-                1, 22, 007, 4, 5,
-                66, 7, 8, 9, 10,
-                11
-            ] : B,
-        },
-    },
-}")).
-Eval vm_compute in ("<<<M445>>>" ++ check (runes_of_ascii "packet
-    // `tick` ""quote"" 'q'
-    crc
-// packet A { u8 x, }
-//	t
-{
-u32 a1 ,
-    // trailing space 
-    roots
-charz //
-`two words`,	}
-    MetaData int int {
-} /// triple")).
-Eval vm_compute in ("<<<M694>>>" ++ check (runes_of_ascii "root packet len // trailing space 
-{
-// " ++ [27880; 37322]%N ++ runes_of_ascii "
-//	t
-char[10
-] metadata	@lengthOf( o ) `crlf
-line`,
-    @rightPad
-( ' '
-) string
-    Header @calculatedFrom( ""a\\""
-    ) ), }
-")).
-Eval vm_compute in ("<<<M451>>>" ++ check (runes_of_ascii "packet
-    // `tick` ""quote"" 'q'
-    crc
-// packet A { u8 x, }
-//	t
-{
-u32 a1 ,
-    // trailing space 
-    roots
-charz //
-`two words`,	}
-    MetaData int }
-{ /// triple")).
-Eval vm_compute in ("<<<M447>>>" ++ check (runes_of_ascii "packet
-    // `tick` ""quote"" 'q'
-    crc
-// packet A { u8 x, }
-//	t
-{
-u32 a1 ,
-    // trailing space 
-    roots
-charz //
-`two words`,	}
-    MetaData ; {
-} /// triple")).
-Eval vm_compute in ("<<<M1828>>>" ++ check (runes_of_ascii "// top
-packet o {
-    // c2
-    repeat Logon uint8x,
-    // c6
-}
-
-// c7
-options {
-    // c9
-    asx = zchar[3]
+) // c9a
+  // c9b
+@tag( // c10
+42
+    // c11
+) @calculatedFrom( // c13
+""""
     // c14
-    stringy = '\x00'
-    // c17
+) // c15
+repeat
+    // c16
+u8 // c17a
+  // c17b
+msg_type // c18a
+  // c18b
+, @lengthOf( stringy
+    // c21
+) @leftPad // c23a
+  // c23b
+( '\x00' )
+    // c26
+@tag( 4294967296
+    // c28
+) // c29a
+  // c29b
+A // c30a
+  // c30b
+`crlf
+line` // c31
+, // c32a
+  // c32b
+zchar[
+    // c33
+1 // c34
+] // c35
+asx // c36
+`" ++ [233]%N ++ runes_of_ascii "` // c37a
+  // c37b
+, // c38a
+  // c38b
+charz
+    // c39
+, // c40a
+  // c40b
+} // c41
+")).
+Eval vm_compute in ("<<<M3525>>>" ++ check (runes_of_ascii "packet
+	    //
+  calculatedFrom{  /// triple
+    	pack matchKey
+``,  int8 MetaDataX
+`a\` , 
+@lengthOf(  crc )
+	int16
+    T 
+,
+zchar[  1 ] Logon
+	@lengthOf( T
+	) 
+`line1
+line2` 
+,
+@rightPad  (
+    ) Packet
+
+`u8 x,`
+    ,  }
+
+packet  pack  /// triple
+
+	{
+} packet Z9_
+{Pad@lengthOf( 
+_x
+
+    )
+	`say ""hi""`
+
+,@lengthOf(
+
+matchKey
+)
+
+@calculatedFrom(
+    """ ++ [128512]%N ++ runes_of_ascii """	) 
+f32  matchKey
+@calculatedFrom(
+""{,}"" )
+	`// not a comment`,
+} options
+    { u =  char[
+
+    65535
+	]  ; 
+rootA =
+3 leftPad =
+' '  ;
+repeatCount	=
+// " ++ [128512]%N ++ runes_of_ascii " emoji
+  '\x00' 
+;
+
+    }
+")).
+Eval vm_compute in ("<<<M379>>>" ++ check (runes_of_ascii "packet // a // b
+Z9_
+    { @calculatedFrom(""\" ++ [233]%N ++ runes_of_ascii """// c
+) Z9_
+, @calculatedFrom(""" ++ [233]%N ++ runes_of_ascii "t" ++ [233]%N ++ runes_of_ascii """ )
+repeat leftPad,
+// packet A { u8 x, }
+//	t
+@rightPad
+( '0' )
+    // trailing space 
+    Foo
+, //
+@tag(10	)
+    chars `line1
+line2` ,
+@leftPad
+    // " ++ [128512]%N ++ runes_of_ascii " emoji
+    ( ) repeat zchar[ 255 ] u128
+,
+@lengthOf( // c
+body
+    ) charz//	t
+{ As
+,	string // @lengthOf(
+zchar `" ++ [28040; 24687; 31867; 22411]%N ++ runes_of_ascii "` , o @calculatedFrom(""1"" ) // packet A { u8 x, }
+, repeat u32 Header	`crlf
+line` , }
+    ,
+zchar[ 0123456789
+] uint8x @calculatedFrom(	""CRC32"" )
+`` ,
+u32
+    a1 ,	}")).
+Eval vm_compute in ("<<<M278>>>" ++ check (runes_of_ascii "packet Header {
+repeat	i64 float ,} packet matchKey { @tag( 00) match u8x as pack
+    // " ++ [128512]%N ++ runes_of_ascii " emoji
+    { 1	:u ""a\\"": string_ , 0:
+body
+, }
+    ,
+@calculatedFrom( ""// no comment""	) @rightPad
+(
+'0' )@tag( 00 ) // a // b
+int16
+calculatedFrom
+@lengthOf( //x
+pack
+),repeat char[] x_y_z , } options //	t
+{ //	t
+float = // " ++ [128512]%N ++ runes_of_ascii " emoji
+char[] roots
+// " ++ [27880; 37322]%N ++ runes_of_ascii "
+// a // b
+='0' ; u = char Packet =
+    0123456789// @lengthOf(
+; u8x // " ++ [27880; 37322]%N ++ runes_of_ascii "
+= ""CRC32""
+    ;}
+    root packet
+    x { i16 T
+@lengthOf(
+f32a)
+`" ++ [28040; 24687; 31867; 22411]%N ++ runes_of_ascii "` , }
+")).
+Eval vm_compute in ("<<<M547>>>" ++ check (runes_of_ascii "MetaData	Logon
+// `tick` ""quote"" 'q'
+// `tick` ""quote"" 'q'
+{
+    int32 u8x , }  root packet string_{ @rightPad ( ' ') char[ 65535
+]
+    o `u8 x,` , match
+// @lengthOf(
+/// triple
+x as  pack {007  : _x [ 255 // trailing space 
+, 7 , ""// no comment""
+,255 , 10	,// " ++ [128512]%N ++ runes_of_ascii " emoji
+""a\""b"" , 007,//	t
+1
+    ]
+    :
+    int , // 50% %s
+[ ""a\\"",
+""CRC32""] : tag
+/// triple
+// " ++ [128512]%N ++ runes_of_ascii " emoji
+, } ,
+@calculatedFrom(""" ++ [28040; 24687]%N ++ runes_of_ascii """)
+    @lengthOf( Foo ) @leftPad
+(//
+) i8 _x , BodyLength lengthOf `a\`
+    , }")).
+Eval vm_compute in ("<<<M3668>>>" ++ check (runes_of_ascii "packet body {
+    @lengthOf(Pad)
+    @tag(007)
+    @tag(00)
+    crc @lengthOf(falsey),
+    @leftPad(' ')
+    repeat string repeatCount `u8 x,`,
+    @rightPad()
+    @leftPad(' ')
+    uint8x u128,
+    @calculatedFrom(""\n"")
+    packetx lengthOf,
 }
-// c18")).
-Eval vm_compute in ("<<<M0>>>" ++ check (runes_of_ascii "
-packet /// triple
-uint8x	{@calculatedFrom(
-""a	b"" )
+
+packet body {
+    @calculatedFrom(""\" ++ [233]%N ++ runes_of_ascii """)
+    metadata asx `100% of %d`,//
+    match chars as uint8x {
+        ""1"" : options1,
+        7 : rootA,
+        ""// no comment"" : float,
+    },
+    char[4294967296] o,
+}")).
+Eval vm_compute in ("<<<M1141>>>" ++ check (runes_of_ascii "options { MetaDataX= ""`tick`""  ;
+    packetx
+    = true A
+    // @lengthOf(
+    =
+""x y"";
+// a // b
+// 50% %s
+T = true ;  roots= true
+}options { chars
+    =// packet A { u8 x, }
+zchar[7 ]
+MetaDataX  =
+    ' '// " ++ [27880; 37322]%N ++ runes_of_ascii "
+;zchar  = 0
+} MetaData // 50% %s
+matchKey {  options1
+MetaDataX
+    `" ++ [233]%N ++ runes_of_ascii "`
+, float64 Z9_ ,
+//
+// a // b
+zchar[ 007
+] x_y_z , zchar[ // c
+1// a // b
+]pack
+    // a // b
+    `say ""hi""`
+    //	t
+    ,char[] // 50% %s
+Foo , }
+")).
+Eval vm_compute in ("<<<M1317>>>" ++ check (runes_of_ascii "options  {} packet o { @tag( 007 ) a1 /// triple
+`two words` , @lengthOf(BodyLength)trueish // 50% %s
+{	i64 x_y_z@calculatedFrom( ""`tick`""
+    )
+    //x
+    ,
+T
+    { int8 rootA // c
+@lengthOf( MetaDataX
+) , zchar[
+    0123456789 ]	trueish `" ++ [28040; 24687; 31867; 22411]%N ++ runes_of_ascii "`
+    ,
+chars
+body ,
+// @lengthOf(
+//	t
+} , uint16 Pad `{ , }` ,
+char[ // " ++ [27880; 37322]%N ++ runes_of_ascii "
+1// " ++ [128512]%N ++ runes_of_ascii " emoji
+] matchKey
+, } , repeat i64_
+T, @lengthOf( charz )	repeat	int8
+    i8i8, }
+")).
+Eval vm_compute in ("<<<M1283>>>" ++ check (runes_of_ascii "options{  o = """ ++ [28040; 24687]%N ++ runes_of_ascii """float = ' ' leftPad =
+    ""a\\""
+;
+}  MetaData u8x { u8
 //
 // " ++ [128512]%N ++ runes_of_ascii " emoji
-i32 charz
-    ,
-match //x
-x	as
-x {""a	b""  :
-lengthOf,} , leftPad
-    `{ , }` , } //x")).
-Eval vm_compute in ("<<<M198>>>" ++ check (runes_of_ascii "MetaData
-    //x
-    body
-    // a // b
-    { BodyLength stringy ,
-    //	t
-    zchar[ 42 ] o
-    ,
-i64_ lengthOf `{ , }` ,u8 MetaDataX  , }")).
-Eval vm_compute in ("<<<M1465>>>" ++ check (runes_of_ascii "options {
-    LittleEndian = true;
-}
-packet B {
-    u8 a,
-    string s,
-}
-root packet P {
-    u16 L @lengthOf(B),
-    B,
-    u8 t,
+zchar ,A repeatCount ,repeatCount MetaDataX , // @lengthOf(
+char[]// @lengthOf(
+string_ ,
+    packetx Foo , uint64 i8i8`{ , }`//x
+,}packet
+x { //	t
+@leftPad( '0' )
+T { int32
+//	t
+// packet A { u8 x, }
+i8i8 `it's`,
+char[]
+rootA `line1
+line2` ,  zchar[  7 //	t
+]	leftPad
+//
+// @lengthOf(
+, }
+,// packet A { u8 x, }
 }
 ")).
-Eval vm_compute in ("<<<M932>>>" ++ check (runes_of_ascii "packet A {
-    u16 len @lengthOf(body) `a
-    b
-  c`,
-    u32 crc @calculatedFrom(""CRC32"") `a
-    b
-  c`,
-    string body,
-}")).
-Eval vm_compute in ("<<<M1241>>>" ++ check (runes_of_ascii "root packet matchKey { zchar[ 3 ] pack @calculatedFrom( ""a	b"" // c
-) `doc` , } options { } MetaData A { int8 msg_type , }")).
-Eval vm_compute in ("<<<M1835>>>" ++ check (runes_of_ascii "
-packet
-	A	{ 
-match  k
-as	n{	[
+Eval vm_compute in ("<<<M4413>>>" ++ check (runes_of_ascii "
+MetaData
+    stringy	{char[3]
 
-    ""a""
-    , ""bb""  ,
-007,
+    T, char[ 255
 
-""d"", ""e""  , 66
-
-    ]
-	:
-B
-	2
-    :
-	C}
-
-    ,
-
-}
-")).
-Eval vm_compute in ("<<<M1968>>>" ++ check (runes_of_ascii "MetaData
-
-    float
-{ 
-float64
-
-charz  `
-` ,  }
-
-root
-packet  // c
-
-	chars
-{	@rightPad
-
-    (  '0' ) Foo  , }
-")).
-Eval vm_compute in ("<<<M1989>>>" ++ check (runes_of_ascii "MetaData  float
-	{
-
-    float64
-charz `
-`	,
-}root  packet chars { @rightPad ('0'
-
-    ) 	 // c
-	Foo,}
-")).
-Eval vm_compute in ("<<<M48>>>" ++ check (runes_of_ascii "  options { zchar =  007
-Header =
-char[// c
-007 ] ;
-    lengthOf= char[
-7 ]; chars =//
-"""" // a // b
-;
-}
-")).
-Eval vm_compute in ("<<<M1969>>>" ++ check (runes_of_ascii "
-
-  packet  A
-{
-match
-    k
-as  n{  [	""a"" ,""bb""
-
-    ,""c c""
+] 
+Logon 
 ,
-	""d""
-	]  : 
-B  ,
+	zchar[ 007]
 
-2 : C
+    packetx
+    , i8
+pack ``
+	, // 50% %s
+    } // 50% %s
+		packet// trailing space 
+  Logon {
+
+    match
+
+u 
+// `tick` ""quote"" 'q'
+	as
+
+    roots {  [
+
+""// no comment"",
+
+""it's""  ] : 
+lengthOf	,  }
+    ,  uint64
+u128 @calculatedFrom(	// a // b
+	""\" ++ [233]%N ++ runes_of_ascii """)  ,string  metadata
+`say ""hi""`  ,}	/// triple
+")).
+Eval vm_compute in ("<<<M3383>>>" ++ check (runes_of_ascii "// top
+options // c0a
+  // c0b
+{ // c1
+LittleEndian // c2
+=
+    // c3
+true ; // c5
+} // c6
+packet // c7a
+  // c7b
+B // c8
+{ // c9
+u8 a ,
+    // c12
+string s // c14
+, } // c16a
+  // c16b
+root
+    // c17
+packet // c18
+P {
+    // c20
+u16
+    // c21
+L
+    // c22
+@lengthOf( B // c24a
+  // c24b
+) // c25
+,
+    // c26
+B ,
+    // c28
+u8 t ,
+    // c31
+} // c32a
+  // c32b
+")).
+Eval vm_compute in ("<<<M3832>>>" ++ check (runes_of_ascii "
+packet	calculatedFrom 
+{
+	@tag(  00  ) @calculatedFrom( ""`tick`""	)trueish
+@calculatedFrom(""x y"" 
+) ,
+i8 // 50% %s
+u8x	,  @lengthOf(
+	body
+)uint8x
+
+x  ,
+msg_type{// packet A { u8 x, }
+    char[]
+
+    Pad
+	`two words` ,}
+
+, }//	t
+options
+
+{  charz
+	= 7 ;
+	u8x
+
+    = zchar[ 255
+] ; 	 //	t
+	u128  =
+""`tick`""calculatedFrom
+= false ;} 
+options
+{}")).
+Eval vm_compute in ("<<<M4035>>>" ++ check (runes_of_ascii "
+MetaData 
+	//	t
+    // 50% %s
+    	f32a
+{
+char[
+	3
+]
+	lengthOf
+,zchar[
+
+7 ]Header
+    , u32 
+x_y_z ,
+
+    }
+packet 
+Foo
+
+{
+}packet	chars  {
+metadata
+
+    {
+msg_type u128
+    `a\`	,	}  ,
+	} 
+MetaData 
+MetaDataX {
+
+    }
+
+    options {
+
+    options1= 0123456789
+    ; 
+body =007 
+; 
+Foo =char[] ;
+
+    u8x	= true 
+; 
+} ")).
+Eval vm_compute in ("<<<M4299>>>" ++ check (runes_of_ascii "packet
+    Header {	char[] MetaDataX`" ++ [28040; 24687; 31867; 22411]%N ++ runes_of_ascii "`
+,  } 
+packet
+	Foo
+{  int64
+
+stringy ,int// `tick` ""quote"" 'q'
+    	`" ++ [233]%N ++ runes_of_ascii "`	,  repeat  zchar[ 00
+
+    ]  Header `" ++ [233]%N ++ runes_of_ascii "`
+    , 
+crc
+pack  ,}
+    options
+	{/// triple
+	  trueish = 
+
+    //x
+
+  ""abc""	;
+
+u128= 
+	    // packet A { u8 x, }
+  	//
+
+true
+    ;
+stringy	// a // b
+=
+
+7  ;
+}
+")).
+Eval vm_compute in ("<<<M420>>>" ++ check (runes_of_ascii "
+packet	falsey{ char Logon @calculatedFrom( """ ++ [128512]%N ++ runes_of_ascii """
+) ,
+repeat leftPad Header
+    , } packet
+Header{
+char[ 3 ]// " ++ [128512]%N ++ runes_of_ascii " emoji
+tag
+@lengthOf( trueish) `two words` , match
+packetx as options1 { 7 :
+    i64_ // c
+""{,}"" :	x ,[""" ++ [28040; 24687]%N ++ runes_of_ascii """,
+    0
+    , ""packet"" ] :_x[ 7 ,00
+]
+:
+    i64_ // trailing space 
+""a\""b"" :
+As , } , }
+")).
+Eval vm_compute in ("<<<M3718>>>" ++ check (runes_of_ascii "
+root  
+      // @lengthOf(
+
+  packet
+
+falsey
+
+{// c
+repeat	// " ++ [128512]%N ++ runes_of_ascii " emoji
+
+	zchar[
+    42
+    ]
+f32a
+, 
+matchKey 
+@lengthOf( // packet A { u8 x, }
+
+x
+	)
+,  // `tick` ""quote"" 'q'
+
+	@calculatedFrom( ""{,}""
+)
+	@leftPad
+(
+'\x00'
+
+)	//	t
+    repeat f32a ,	@rightPad (	'\x00'
+) 
+T@lengthOf(  o)	,  } ")).
+Eval vm_compute in ("<<<M3422>>>" ++ check (runes_of_ascii "  packet
+	A {
+
+    u8
+	a ,
+}  packet
+B{  u16 
+b
+
+,}  packet	C
+{ 
+u32
+
+    c
+	, }
+root
+	packet
+
+    M{u16 Kc,
+u16	Kb
+
+,
+
+u16 Ka, match Kc 
+as 
+X {
+
+9:
+A,
+
+10 
+:B ,
+    }  ,match	Kb
+    as 
+Y{
+2 :
+
+C
+	,
+1 : A ,
+} ,  match Ka as Z 
+{ 1 : B
+, }
+
+    ,  A, 
+B , C
+    ,
+}
+
+")).
+Eval vm_compute in ("<<<M1137>>>" ++ check (runes_of_ascii "options
+{ calculatedFrom= ""\n"" ; } root packet lengthOf { /// triple
+@calculatedFrom( ""\" ++ [233]%N ++ runes_of_ascii """ ) repeatCount
+@calculatedFrom(
+""\" ++ [233]%N ++ runes_of_ascii """ ) `
+` , Logon, u@calculatedFrom( ""it's""  ),
+    metadata rootA //	t
+, char[ // 50% %s
+42] u@calculatedFrom( ""a	b"")  , }
+packet
+Header{
+    }
+
+")).
+Eval vm_compute in ("<<<M1659>>>" ++ check (runes_of_ascii "// 50% %s
+packet	a1
+    { zchar[
+// a // b
+// 50% %s
+007]
+T `it's`
+    ,@rightPad
+    // a // b
+    (
+'\x00')
+    o repeatCount , }  packet Logon {  }packet	Logon //x
+{ repeat // " ++ [128512]%N ++ runes_of_ascii " emoji
+uint16 u128
+    //
+    `a\`""a\""b""
+falsey
+@calculatedFrom(""packet"" ) ,
+    } 	 ")).
+Eval vm_compute in ("<<<M1617>>>" ++ check (runes_of_ascii "// 50% %s
+packet	a1
+    { zchar[
+// a // b
+// 50% %s
+007]
+T `it's`
+    ,@rightPad
+    // a // b
+    (
+'\x00')
+    o repeatCount , }  packet Logon {  } }packet	Logon //x
+{ repeat // " ++ [128512]%N ++ runes_of_ascii " emoji
+uint16 u128
+    //
+    `a\`,
+falsey
+@calculatedFrom(""packet"" ) ,
+    } 	 ")).
+Eval vm_compute in ("<<<M1553>>>" ++ check (runes_of_ascii "// 50% %s
+packet	a1
+    { zchar[
+// a // b
+// 50% %s
+007]
+T ,
+    `it's`@rightPad
+    // a // b
+    (
+'\x00')
+    o repeatCount , }  packet Logon {  }packet	Logon //x
+{ repeat // " ++ [128512]%N ++ runes_of_ascii " emoji
+uint16 u128
+    //
+    `a\`,
+falsey
+@calculatedFrom(""packet"" ) ,
+    } 	 ")).
+Eval vm_compute in ("<<<M600>>>" ++ check (runes_of_ascii "packet
+    x { string
+// packet A { u8 x, }
+// " ++ [128512]%N ++ runes_of_ascii " emoji
+As , char[	65535 ]	leftPad `crlf
+line` , i16 rootA
+@lengthOf( packetx )
+//x
+// " ++ [27880; 37322]%N ++ runes_of_ascii "
+`
+` , repeat zchar
+    T`" ++ [28040; 24687; 31867; 22411]%N ++ runes_of_ascii "` , }packet
+// 50% %s
+/// triple
+options1 {// @lengthOf(
+o ``,
+    // packet A { u8 x, }
+    }
+")).
+Eval vm_compute in ("<<<M1089>>>" ++ check (runes_of_ascii "  packet calculatedFrom {
+i8i8
+    // packet A { u8 x, }
+    , }
+    packet lengthOf{tag `doc` ,float32 string_
+    // @lengthOf(
+    ,
+    zchar[
+    007]
+    u `{ , }`
+//
+//	t
+, u64 string_
+`doc` ,zchar[3 ] roots `doc`
+    , i8
+    len,  } root
+packet	_x{	}")).
+Eval vm_compute in ("<<<M4277>>>" ++ check (runes_of_ascii "options {
+    o = i16;
+    crc = true;
+    zchar = ""\" ++ [233]%N ++ runes_of_ascii """;
+    u128 = """ ++ [128512]%N ++ runes_of_ascii """;
+}
+
+// a // b
+MetaData Logon {
+    string options1 `doc`,
+    char[007] int `" ++ [233]%N ++ runes_of_ascii "`,
+}
+
+MetaData pack {
+    x rootA,
+    roots u8x `crlf
+        line`,
+    a1 Z9_ `line1
+        line2`,
+}")).
+Eval vm_compute in ("<<<M23>>>" ++ check (runes_of_ascii "root packet x_y_z
+{ int32 lengthOf
+    `line1
+line2` , }packet
+    T{ u16  i64_	, } packet
+Z9_ { repeat string//
+trueish // `tick` ""quote"" 'q'
+`doc`,
+} options
+/// triple
+// 50% %s
+{repeatCount
+    ='0' //	t
+;charz  =
+    i16
+; tag= ""packet""}
+
+")).
+Eval vm_compute in ("<<<M4034>>>" ++ check (runes_of_ascii "packet Z9_ {
+    lengthOf {
+        char[] u128,
+        u32 o,
     },
 }
 
+options {
+}
+
+MetaData len {
+    char Logon,
+    repeatCount lengthOf,
+    Z9_ o,
+    string MetaDataX `say ""hi""`,
+    char[1] calculatedFrom `
+    `,
+    u tag,
+}//")).
+Eval vm_compute in ("<<<M1259>>>" ++ check (runes_of_ascii "  packet len	{ string tag , @calculatedFrom(
+    """ ++ [233]%N ++ runes_of_ascii "t" ++ [233]%N ++ runes_of_ascii """)
+repeat Z9_{ // " ++ [27880; 37322]%N ++ runes_of_ascii "
+zchar[ 65535// c
+] //	t
+len @lengthOf( matchKey
+) ,
+//
+/// triple
+} ,  }MetaData float {
+f32a rootA // trailing space 
+`" ++ [233]%N ++ runes_of_ascii "`
+    , // trailing space 
+}
 ")).
-Eval vm_compute in ("<<<M849>>>" ++ check (runes_of_ascii "packet A {
-  match k as n {
-    [""a"", ""bb"", ""c c"", ""d"", ""e"", ""f"", ""g"", ""h""] : B,
-    2 : C
-  },
-}")).
-Eval vm_compute in ("<<<M212>>>" ++ check (runes_of_ascii "root packet matchKey{f32a// " ++ [27880; 37322]%N ++ runes_of_ascii "
-`u8 x,` ,	char[]u8x ,
-@calculatedFrom( ""a\""b"" )
-i32 i8i8 , }
+Eval vm_compute in ("<<<M2>>>" ++ check (runes_of_ascii "packet metadata
+{
+    charz	@calculatedFrom(
+    // `tick` ""quote"" 'q'
+    ""CRC32"")
+,
+    MetaDataX, } packet uint8x	{ }
+    options{//
+}options{ u8x= """ ++ [128512]%N ++ runes_of_ascii """; crc = 0123456789 ; stringy
+    =
+false;
+rootA = float32 ; }
 
 ")).
-Eval vm_compute in ("<<<M1596>>>" ++ check (runes_of_ascii "packet A {
+Eval vm_compute in ("<<<M1214>>>" ++ check (runes_of_ascii "/// triple
+options {Logon	= ""a	b"";}  options {
+    falsey = """ ++ [233]%N ++ runes_of_ascii "t" ++ [233]%N ++ runes_of_ascii """
+    ; u128=' '
+    _x = //	t
+""" ++ [128512]%N ++ runes_of_ascii """ ;Foo
+=
+    // @lengthOf(
+    00	pack= ' ' ;}packet i64_ { }
+    packet As {
+    char
+o @lengthOf( u) ,
+} 	 ")).
+Eval vm_compute in ("<<<M4431>>>" ++ check (runes_of_ascii "root
+
+    packet	x{ match
+x as  // packet A { u8 x, }
+	chars {
+
+10 :
+
+u128,
+	} // trailing space 
+	  ,
+
+    @calculatedFrom( """"
+
+) float64 lengthOf
+
+@lengthOf(calculatedFrom
+    )`tab	here` ,}
+")).
+Eval vm_compute in ("<<<M4316>>>" ++ check (runes_of_ascii "MetaData x {
+    int32 int `line1
+        line2`,
+}
+
+packet o {
+    u32 charz,
+    char[1] x_y_z `
+        `,//	t
+    len lengthOf,
+    @lengthOf(charz)
+    i16 body `crlf
+        line`,
+}")).
+Eval vm_compute in ("<<<M626>>>" ++ check (runes_of_ascii "packet MetaDataX { }
+    MetaData crc {
+    tag MetaDataX,
+    // `tick` ""quote"" 'q'
+    char[
+65535 ] trueish , string	crc , // a // b
+zchar[7 ] MetaDataX,
+/// triple
+// " ++ [27880; 37322]%N ++ runes_of_ascii "
+}
+")).
+Eval vm_compute in ("<<<M4185>>>" ++ check (runes_of_ascii "root packet zchar {
+}
+
+MetaData leftPad {
+}
+
+// " ++ [128512]%N ++ runes_of_ascii " emoji
+MetaData charz {
+    _x i8i8,
+    Logon packetx,
+    zchar[007] u `two words`,
+    // `tick` ""quote"" 'q'
+    //	t
+}")).
+Eval vm_compute in ("<<<M1635>>>" ++ check (runes_of_ascii "// 50% %s
+packet	a1
+    { zchar[
+// a // b
+// 50% %s
+007]
+T `it's`
+    ,@rightPad
+    // a // b
+    (
+'\x00')
+    o repeatCount , }  packet Logon {  }packet	Logon")).
+Eval vm_compute in ("<<<M4171>>>" ++ check (runes_of_ascii "  packet A 
+{match 
+k
+as n
+{ [
+1
+
+    ,
+
+    22
+,
+
+""c c""
+
+    , 
+4
+,
+5
+,	""f"" 
+, 
+7,
+8	,
+""i""
+
+    ,
+    10
+	, 11, ""l"" ]
+
+    :
+B
+
+2
+:
+C }	, } ")).
+Eval vm_compute in ("<<<M2259>>>" ++ check (runes_of_ascii "options
+    {
+x_y_z// " ++ [27880; 37322]%N ++ runes_of_ascii "
+= 10 ; }
+packet body {
+    @calculatedFrom( @calculatedFrom(
+// trailing space 
+// " ++ [27880; 37322]%N ++ runes_of_ascii "
+""1""
+)	match T as Foo
+    {
+255 :T , }
+,}")).
+Eval vm_compute in ("<<<M2066>>>" ++ check (runes_of_ascii "MetaData BodyLength
+{ int8 Foo Foo
+, string
+    MetaDataX , float zchar ,pack options1
+,asx string_, }
+packet u8x {Foo@lengthOf(charz )
+`" ++ [28040; 24687; 31867; 22411]%N ++ runes_of_ascii "`,  }
+")).
+Eval vm_compute in ("<<<M2193>>>" ++ check (runes_of_ascii "MetaData BodyLength
+{ int8 Foo
+, string
+    < MetaDataX , float zchar ,pack options1
+,asx string_, }
+packet u8x {Foo@lengthOf(charz )
+`" ++ [28040; 24687; 31867; 22411]%N ++ runes_of_ascii "`,  }
+")).
+Eval vm_compute in ("<<<M733>>>" ++ check (runes_of_ascii "// packet A { u8 x, }
+packet
+    float // " ++ [128512]%N ++ runes_of_ascii " emoji
+{
+    } packet u8x {
+    } /// triple
+options{  T
+= ""{,}"" // 50% %s
+} // `tick` ""quote"" 'q'")).
+Eval vm_compute in ("<<<M2187>>>" ++ check (runes_of_ascii "MetaData BodyLength
+{ int8 Foo
+, string
+    MetaDataX , float zchar ,pack options1
+,asx string_, }
+packet u8x {Foo@lengthOf(charz )
+`" ++ [28040; 24687; 31867; 22411]%N ++ runes_of_ascii "`,  ,
+")).
+Eval vm_compute in ("<<<M1610>>>" ++ check (runes_of_ascii "// 50% %s
+packet	a1
+    { zchar[
+// a // b
+// 50% %s
+007]
+T `it's`
+    ,@rightPad
+    // a // b
+    (
+'\x00')
+    o repeatCount , }  packet")).
+Eval vm_compute in ("<<<M3519>>>" ++ check (runes_of_ascii "// c
+MetaData Packet {
+    i8i8 repeatCount,
+    calculatedFrom falsey `
+    `,
+    float32 tag,
+    string Packet `line1
+    line2`,
+}
+// c")).
+Eval vm_compute in ("<<<M1987>>>" ++ check (runes_of_ascii "
+packet leftPad {
+@leftPad( '0')
+u32
+i64_ `100% of %d` ,repeat// 50% %s
+i8 i8 chars
+    ,
+} MetaData
+    f32a
+{ // packet A { u8 x, }
+}")).
+Eval vm_compute in ("<<<M2215>>>" ++ check (runes_of_ascii "options
+    { {
+x_y_z// " ++ [27880; 37322]%N ++ runes_of_ascii "
+= 10 ; }
+packet body {
+    @calculatedFrom(
+// trailing space 
+// " ++ [27880; 37322]%N ++ runes_of_ascii "
+""1""
+)	match T as Foo
+    {
+255 :T , }
+,}")).
+Eval vm_compute in ("<<<M2045>>>" ++ check (runes_of_ascii "
+packet leftPad {
+@leftPad( '0')
+u32
+i64_ `100% of %d` ,repeat// 50% %s
+i8 caf" ++ [233]%N ++ runes_of_ascii "_1
+    ,
+} MetaData
+    f32a
+{ // packet A { u8 x, }
+}")).
+Eval vm_compute in ("<<<M1988>>>" ++ check (runes_of_ascii "
+packet leftPad {
+@leftPad( '0')
+u32
+i64_ `100% of %d` ,repeat// 50% %s
+chars i8
+    ,
+} MetaData
+    f32a
+{ // packet A { u8 x, }
+}")).
+Eval vm_compute in ("<<<M2310>>>" ++ check (runes_of_ascii "options
+    {
+x_y_z// " ++ [27880; 37322]%N ++ runes_of_ascii "
+= 10 ; }
+packet body {
+    @calculatedFrom(
+// trailing space 
+// " ++ [27880; 37322]%N ++ runes_of_ascii "
+""1""
+)	match T as Foo
+    {
+255 :, T }
+,}")).
+Eval vm_compute in ("<<<M2278>>>" ++ check (runes_of_ascii "options
+    {
+x_y_z// " ++ [27880; 37322]%N ++ runes_of_ascii "
+= 10 ; }
+packet body {
+    @calculatedFrom(
+// trailing space 
+// " ++ [27880; 37322]%N ++ runes_of_ascii "
+""1""
+)	match  as Foo
+    {
+255 :T , }
+,}")).
+Eval vm_compute in ("<<<M2327>>>" ++ check (runes_of_ascii "options
+    {
+x_y_z// " ++ [27880; 37322]%N ++ runes_of_ascii "
+= 10 ; }
+packet body {
+    @calculatedFrom(
+// trailing space 
+// " ++ [27880; 37322]%N ++ runes_of_ascii "
+""1""
+)	match T as Foo
+    {
+255 :T , }")).
+Eval vm_compute in ("<<<M819>>>" ++ check (runes_of_ascii "MetaData msg_type{ }
+root packet	Pad
+    { char[42] T , repeat
+    string_ `it's` , @lengthOf(  x_y_z
+)
+    char[ 10
+]	roots , }
+")).
+Eval vm_compute in ("<<<M3063>>>" ++ check (runes_of_ascii "packet A {
     Inner {
-        match k as n {
-            [1, 22] : B,
+        u8 x `100% of %s %d %v`,
+        Deep {
+            u8 y `100% of %s %d %v`,
         },
     },
 }")).
-Eval vm_compute in ("<<<M1200>>>" ++ check (runes_of_ascii "MetaData float { float64 charz `
-` , } root packet chars // c
-{ @rightPad ( '0' ) Foo , }")).
-Eval vm_compute in ("<<<M1411>>>" ++ check (runes_of_ascii "packet chars { } packet MetaDataX { @tag(
-// c
-42 ) i16 string_ , repeat x `say ""hi""` , }")).
-Eval vm_compute in ("<<<M840>>>" ++ check (runes_of_ascii "packet A {
-  match k as n {
-    [""a"", 22, ""c c"", 4, ""e"", 66, ""g""] : B,
-    2 : C
-  },
-}")).
-Eval vm_compute in ("<<<M1141>>>" ++ check (runes_of_ascii "packet metadata { Logon { A `" ++ [28040; 24687; 31867; 22411]%N ++ runes_of_ascii "` , tag
-// c
-o , } , zchar len `// not a comment` , }")).
-Eval vm_compute in ("<<<M1346>>>" ++ check (runes_of_ascii "packet o { repeat // c
-Logon uint8x , } options { asx = zchar[ 3 ] stringy = '\x00' }")).
-Eval vm_compute in ("<<<M1844>>>" ++ check (runes_of_ascii "
-packet
-	A 
-{ match	k  as n
-{
-	[
-    ""a""	,22
-,
-""c c"" 
-,4
-]
-    :	B
-2 
-:C
-} , } ")).
-Eval vm_compute in ("<<<M1307>>>" ++ check (runes_of_ascii "MetaData body // c
-{ i64 pack `it's` , } packet stringy { int16 calculatedFrom , }")).
-Eval vm_compute in ("<<<M828>>>" ++ check (runes_of_ascii "packet A {
-  match k as n {
-    [""a"", 22, ""c c"", 4, ""e"", 66] : B
-    2 : C
-  },
-}")).
-Eval vm_compute in ("<<<M703>>>" ++ check (runes_of_ascii "root packet len // trailing space 
-{
-// " ++ [27880; 37322]%N ++ runes_of_ascii "
-//	t
-char[10
-] metadata	@lengthOf(")).
-Eval vm_compute in ("<<<M808>>>" ++ check (runes_of_ascii "packet A {
-  match k as n {
-    [1, 22, 007, 4, 5] : B,
-    2 : C
-  },
-}")).
-Eval vm_compute in ("<<<M1082>>>" ++ check (runes_of_ascii "packet A { match k as n { [ // a
- 1 // b
- , // c
- 2 ] // d
- : B }, }")).
-Eval vm_compute in ("<<<M1484>>>" ++ check (runes_of_ascii "
-
-  root
-packet
-
-P { repeat
-string
-ss
-
-,	repeat u16 ns
-,
-
-}
-
-")).
-Eval vm_compute in ("<<<M1482>>>" ++ check (runes_of_ascii "root packet P {
-    repeat string ss,
-    repeat u16 ns,
-}
-")).
-Eval vm_compute in ("<<<M1654>>>" ++ check (runes_of_ascii "
-root
-packet  u128	// c
-  {
-
-    chars  `it's`
-    ,
-	}
-")).
-Eval vm_compute in ("<<<M2008>>>" ++ check (runes_of_ascii "root 
-packet
-
-P  {
-char
-c
-,
-
-    u8
-    x
-	, } ")).
-Eval vm_compute in ("<<<M1842>>>" ++ check (runes_of_ascii "  MetaData	pack	{
-f64
-    A	`{ , }`	,
+Eval vm_compute in ("<<<M703>>>" ++ check (runes_of_ascii "packet u	{ f32a a1 ,
+    } packet Pad {
+}options { i8i8
+    = ""a	b""
+; packetx  = uint64 ;o = '\x00'
+Pad = '\x00' ;
     }
+")).
+Eval vm_compute in ("<<<M1880>>>" ++ check (runes_of_ascii "packet o {
+    roots `it's`
+// trailing space 
+//x
+, char[ 42
+    ]  A char[] // " ++ [27880; 37322]%N ++ runes_of_ascii "
+f64
+repeatCount
+    `crlf
+line`
+,}")).
+Eval vm_compute in ("<<<M3033>>>" ++ check (runes_of_ascii "packet A {
+    Inner {
+        u8 x `a
+    b
+  c`,
+        Deep {
+            u8 y `a
+    b
+  c`,
+        },
+    },
+}")).
+Eval vm_compute in ("<<<M1910>>>" ++ check (runes_of_ascii "packet o {
+    roots `it's`
+// trailing space 
+//x
+, char[ '42
+    ]  A, // " ++ [27880; 37322]%N ++ runes_of_ascii "
+f64
+repeatCount
+    `crlf
+line`
+,}")).
+Eval vm_compute in ("<<<M1899>>>" ++ check (runes_of_ascii "packet o {
+    roots `it's`
+// trailing space 
+//x
+, char[ 42
+    ]  A, // " ++ [27880; 37322]%N ++ runes_of_ascii "
+f64
+repeatCount
+    `crlf
+line`
+},")).
+Eval vm_compute in ("<<<M969>>>" ++ check (runes_of_ascii "
+root
+    packet roots { T @calculatedFrom( ""it's""
+) `line1
+line2`
+    , repeat matchKey{ u16 matchKey , } , }
+")).
+Eval vm_compute in ("<<<M3038>>>" ++ check (runes_of_ascii "packet A {
+    u16 len @lengthOf(body) `a
+
+b`,
+    u32 crc @calculatedFrom(""CRC32"") `a
+
+b`,
+    string body,
+}")).
+Eval vm_compute in ("<<<M290>>>" ++ check (runes_of_ascii "packet chars { @tag( 00  ) @tag( 1 ) @lengthOf( Pad)	int8 Header // trailing space 
+@lengthOf( rootA
+), }
+")).
+Eval vm_compute in ("<<<M4111>>>" ++ check (runes_of_ascii "  packet A
+
+    { Inner
+
+    {  u8
+    x
+
+    `%%d%!`
+
+,Deep{
+	u8
+	y
+
+`%%d%!`,
+
+} 
+,
+
+    }, }
 
 ")).
-Eval vm_compute in ("<<<M1943>>>" ++ check (runes_of_ascii "root packet zchar {
-    zchar[007] Foo,
+Eval vm_compute in ("<<<M3015>>>" ++ check (runes_of_ascii "packet A {
+    Inner {
+        u8 x `a
+b`,
+        Deep {
+            u8 y `a
+b`,
+        },
+    },
 }")).
-Eval vm_compute in ("<<<M1662>>>" ++ check (runes_of_ascii "root packet u128 {
-    chars `it's`,
+Eval vm_compute in ("<<<M1195>>>" ++ check (runes_of_ascii "root packet
+    falsey {int falsey , u8 Packet @lengthOf( f32a )`u8 x,` , } // `tick` ""quote"" 'q'")).
+Eval vm_compute in ("<<<M1221>>>" ++ check (runes_of_ascii "// " ++ [128512]%N ++ runes_of_ascii " emoji
+MetaData Header {  string
+tag , char[ 0123456789]uint8x
+`{ , }`
+,float64  falsey , }")).
+Eval vm_compute in ("<<<M1455>>>" ++ check (runes_of_ascii "packet
+T
+{ match repeatCount as	calculatedFrom
+{ i32 65535 ]	: As	,
+} ,}
+// trailing space 
+")).
+Eval vm_compute in ("<<<M1499>>>" ++ check (runes_of_ascii "packet
+T
+{ match repeatCount as	calculatedFrom
+{ [65535 ]	: @ As	,
+} ,}
+// trailing space 
+")).
+Eval vm_compute in ("<<<M3336>>>" ++ check (runes_of_ascii "// top
+options
+    // c0
+{
+    // c1
+u8x
+    // c2
+=
+    // c3
+false
+    // c4
+}
+    // c5
+")).
+Eval vm_compute in ("<<<M1822>>>" ++ check (runes_of_ascii "o'\x01'ptions{  lengthOf =//x
+i16;
+    BodyLength = 0 ; pack
+= false;
+    A = char[ 3 ] }")).
+Eval vm_compute in ("<<<M384>>>" ++ check (runes_of_ascii "  MetaData repeatCount { metadata Pad
+//	t
+// packet A { u8 x, }
+`say ""hi""` ,
+//
+//	t
+}
+")).
+Eval vm_compute in ("<<<M4343>>>" ++ check (runes_of_ascii "
+root
+
+    packet
+P
+{
+	u16
+a
+,
+    u32
+
+    Sum @calculatedFrom(""CRC32"" )
+,
+}
+")).
+Eval vm_compute in ("<<<M1427>>>" ++ check (runes_of_ascii "packet
+T
+{  repeatCount as	calculatedFrom
+{ [65535 ]	: As	,
+} ,}
+// trailing space 
+")).
+Eval vm_compute in ("<<<M1757>>>" ++ check (runes_of_ascii "options{  lengthOf =//x
+i16;
+    BodyLength = 0 pack ;
+= false;
+    A = char[ 3 ] }")).
+Eval vm_compute in ("<<<M1795>>>" ++ check (runes_of_ascii "options{  lengthOf =//x
+i16;
+    BodyLength = 0 ; pack
+= false;
+    A = char[  ] }")).
+Eval vm_compute in ("<<<M2925>>>" ++ check (runes_of_ascii "packet A {
+  match k as n {
+    [1, ""bb"", 007, ""d"", 5, ""f""] : B,
+    2 : C
+  },
 }")).
-Eval vm_compute in ("<<<M917>>>" ++ check (runes_of_ascii "root packet A {
+Eval vm_compute in ("<<<M1770>>>" ++ check (runes_of_ascii "options{  lengthOf =//x
+i16;
+    BodyLength = 0 ; pack
+= ;
+    A = char[ 3 ] }")).
+Eval vm_compute in ("<<<M3268>>>" ++ check (runes_of_ascii "MetaData Foo { zchar[ 0 ] matchKey , } options { lengthOf
+// c
+= i32 u = 00 ; }")).
+Eval vm_compute in ("<<<M2915>>>" ++ check (runes_of_ascii "packet A {
+  match k as n {
+    [""a"", 22, ""c c"", 4, ""e""] : B
+    2 : C
+  },
+}")).
+Eval vm_compute in ("<<<M1740>>>" ++ check (runes_of_ascii "options{  lengthOf =//x
+i16;
+     = 0 ; pack
+= false;
+    A = char[ 3 ] }")).
+Eval vm_compute in ("<<<M3858>>>" ++ check (runes_of_ascii "
+packet 
+A
+	{
+
+B
+
+    b`x
+`
+	, B  `x
+`
+
+,  repeat
+	B
+bs
+	`x
+`	, 
+}
+")).
+Eval vm_compute in ("<<<M4352>>>" ++ check (runes_of_ascii "
+packet
+
+    A {  B {
+match k as
+
+n
+
+    { 1
+    :C	}
+	,
+} 
+,
+
+} ")).
+Eval vm_compute in ("<<<M1491>>>" ++ check (runes_of_ascii "packet
+T
+{ match repeatCount as	calculatedFrom
+{ [65535 ]	: As	,
+}")).
+Eval vm_compute in ("<<<M505>>>" ++ check (runes_of_ascii "packet // @lengthOf(
+As{ zchar[ 7 ] chars
+@lengthOf( As
+)
+, }
+")).
+Eval vm_compute in ("<<<M2830>>>" ++ check (runes_of_ascii "i8 ) root match ( : `100% of %d` : root ; 3 int8 '\x00' float64")).
+Eval vm_compute in ("<<<M3292>>>" ++ check (runes_of_ascii "packet
+// c
+u8x { } MetaData crc { char[ 4294967296 ] Foo , }")).
+Eval vm_compute in ("<<<M1555>>>" ++ check (runes_of_ascii "// 50% %s
+packet	a1
+    { zchar[
+// a // b
+// 50% %s
+007]
+T")).
+Eval vm_compute in ("<<<M1471>>>" ++ check (runes_of_ascii "packet
+T
+{ match repeatCount as	calculatedFrom
+{ [65535 ]")).
+Eval vm_compute in ("<<<M191>>>" ++ check (runes_of_ascii "options
+    { /// triple
+charz
+//
+// 50% %s
+=""a	b"" ;}
+")).
+Eval vm_compute in ("<<<M3620>>>" ++ check (runes_of_ascii "  options
+
+    { a
+=
+	1 
+; // a
+    b
+= 2// b
+	} ")).
+Eval vm_compute in ("<<<M1042>>>" ++ check (runes_of_ascii "MetaData rootA {
+    // `tick` ""quote"" 'q'
+    }
+")).
+Eval vm_compute in ("<<<M3022>>>" ++ check (runes_of_ascii "MetaData M {
     u8 x `a
 b`,
+    T t `a
+b`,
 }")).
-Eval vm_compute in ("<<<M1008>>>" ++ check (runes_of_ascii "packet A {
- u8 x `d" ++ [8232]%N ++ runes_of_ascii "`, // c" ++ [8232]%N ++ runes_of_ascii "
-}")).
-Eval vm_compute in ("<<<M1659>>>" ++ check (runes_of_ascii "packet A {
-    char[3] x,
-}")).
-Eval vm_compute in ("<<<M141>>>" ++ check (runes_of_ascii "packet Header {
+Eval vm_compute in ("<<<M92>>>" ++ check (runes_of_ascii "// c
+root /// triple
+packet Pad
+    {
     }
 ")).
-Eval vm_compute in ("<<<M2125>>>" ++ check (runes_of_ascii "packet options1 {} ")).
-Eval vm_compute in ("<<<M1046>>>" ++ check (runes_of_ascii "packet A {
+Eval vm_compute in ("<<<M4032>>>" ++ check (runes_of_ascii "MetaData
+calculatedFrom
+	{string
+Header , }")).
+Eval vm_compute in ("<<<M801>>>" ++ check (runes_of_ascii "MetaData options1 {Packet roots ,
+    }
+")).
+Eval vm_compute in ("<<<M3222>>>" ++ check (runes_of_ascii "root
+// c
+packet u128 { chars `doc` , }")).
+Eval vm_compute in ("<<<M3183>>>" ++ check (runes_of_ascii "packet A {    u8 x, // c    u8 y,}")).
+Eval vm_compute in ("<<<M1067>>>" ++ check (runes_of_ascii "MetaData matchKey
+{ body len , } //x")).
+Eval vm_compute in ("<<<M2362>>>" ++ check (runes_of_ascii "MetaData
+Foo Header{ //
+pack ,	} 	 ")).
+Eval vm_compute in ("<<<M2811>>>" ++ check (runes_of_ascii "zchar[ @tag( @tag( uint16 [ packet")).
+Eval vm_compute in ("<<<M2356>>>" ++ check (runes_of_ascii "MetaData
+ {Header //
+pack ,	} 	 ")).
+Eval vm_compute in ("<<<M2816>>>" ++ check (runes_of_ascii ";" ++ [65533; 12; 65533]%N ++ runes_of_ascii "V" ++ [65533; 65533; 65533; 65533; 65533; 65533; 18; 65533]%N ++ runes_of_ascii "H" ++ [65533]%N ++ runes_of_ascii "r" ++ [65533; 65533]%N ++ runes_of_ascii "p7;.Bx" ++ [31]%N ++ runes_of_ascii "
+" ++ [65533; 65533; 16; 65533]%N ++ runes_of_ascii "u")).
+Eval vm_compute in ("<<<M3149>>>" ++ check (runes_of_ascii "packet A {
+ u8 x `d" ++ [11]%N ++ runes_of_ascii "`, // c" ++ [11]%N ++ runes_of_ascii "
+}")).
+Eval vm_compute in ("<<<M2379>>>" ++ check (runes_of_ascii "MetaData
+Foo {Header //
+pack")).
+Eval vm_compute in ("<<<M2606>>>" ++ check (runes_of_ascii "packet A { B { u8 x, } C, }")).
+Eval vm_compute in ("<<<M3820>>>" ++ check (runes_of_ascii "packet
+
+A
+{
+    } 
+// c" ++ [5760]%N ++ runes_of_ascii "
+")).
+Eval vm_compute in ("<<<M2826>>>" ++ check (runes_of_ascii "@rightPad @leftPad match")).
+Eval vm_compute in ("<<<M1272>>>" ++ check (runes_of_ascii "options
+{ Foo = ' ' }")).
+Eval vm_compute in ("<<<M4169>>>" ++ check (runes_of_ascii "MetaData msg_type {
+}")).
+Eval vm_compute in ("<<<M2603>>>" ++ check (runes_of_ascii "packet A { B { }, }")).
+Eval vm_compute in ("<<<M3097>>>" ++ check (runes_of_ascii "packet A {
 }
-// c" ++ [65279]%N)).
-Eval vm_compute in ("<<<M653>>>" ++ check (runes_of_ascii "root packet tag ")).
-Eval vm_compute in ("<<<M241>>>" ++ check (runes_of_ascii "
-
-//x
+// c" ++ [12288]%N)).
+Eval vm_compute in ("<<<M3190>>>" ++ check (runes_of_ascii "MetaData M {
+}// c")).
+Eval vm_compute in ("<<<M3140>>>" ++ check (runes_of_ascii "packet A {
+}// c" ++ [8287]%N)).
+Eval vm_compute in ("<<<M1079>>>" ++ check (runes_of_ascii "packet crc {
+}
 ")).
-Eval vm_compute in ("<<<M333>>>" ++ check (runes_of_ascii "
+Eval vm_compute in ("<<<M2222>>>" ++ check (runes_of_ascii "options
+    {")).
+Eval vm_compute in ("<<<M3511>>>" ++ check (runes_of_ascii "options {
+}")).
+Eval vm_compute in ("<<<M3645>>>" ++ check (runes_of_ascii "// a // b")).
+Eval vm_compute in ("<<<M642>>>" ++ check (runes_of_ascii " // " ++ [27880; 37322]%N)).
+Eval vm_compute in ("<<<M2448>>>" ++ check (runes_of_ascii "uint8")).
+Eval vm_compute in ("<<<M3161>>>" ++ check (runes_of_ascii "// c" ++ [8203]%N)).
+Eval vm_compute in ("<<<M667>>>" ++ check (runes_of_ascii "
 
 ")).
+Eval vm_compute in ("<<<M2697>>>" ++ check (runes_of_ascii " " ++ [12]%N ++ runes_of_ascii " ")).
+Eval vm_compute in ("<<<M2513>>>" ++ check (runes_of_ascii """")).
